@@ -357,7 +357,7 @@ POSITIVE_PROBE = "{ union { uint32_t u32; uint8_t u8[4]; } S; S.u32 = 0x01020304
 
 def rule_order(ctx, func):
     r = Rule('C17-ORDER', 'byte-order/size/alignment prefixes of a buffer format (@ = < > ! ^) are accepted, rejected and read back exactly as the struct module / PEP 3118 '
-             'define them, for both host byte orders (decision table of the prefix arms of the format scanner x the endianness probe)', floor=12)
+             'define them, for both host byte orders (decision table of the prefix arms of the format scanner x the endianness probe)', floor=14)
     _reference_selfcheck()
     cs = func(ctx, '__Pyx_BufFmt_CheckString')
     pc = func(ctx, '__Pyx_BufFmt_ProcessTypeChunk')
@@ -367,6 +367,19 @@ def rule_order(ctx, func):
     for (c, L), row in sorted(rows.items()):
         r.inst('Buffer.c:__Pyx_BufFmt_CheckString:prefix:%s:%s-host' % (c, L),
                sample='prefix %r on a %s-endian host: %s' % (c, L, 'no arm' if row is None else '%s%s' % (row[0], '' if row[1] is None else ', mode %r' % row[1])))
+    # no prefix at all: "by default, the first character is assumed to be '@'" (struct docs) -- the context must start in native mode
+    init = func(ctx, '__Pyx_BufFmt_Init')
+    for f in sorted(reader.fields):
+        vals = [P.char_value(m.group(1)) for m in re.finditer(r"->\s*%s\s*=\s*('(?:\\.|[^'\\])')\s*;" % re.escape(f), init.body)]
+        r.inst('Buffer.c:__Pyx_BufFmt_Init:default-mode:%s' % f, sample='initial %s = %s' % (f, vals))
+        if len(vals) != 1 or vals[0] is None:
+            r.violate('Buffer.c:__Pyx_BufFmt_Init:default-mode:%s' % f, BUFFER_C, init.line,
+                      '__Pyx_BufFmt_Init does not give the pack-mode field %s one constant initial value: a format without a prefix is sized by whatever the previous check left behind' % f)
+        elif reader.modes(vals[0]) != ('native', 'native'):
+            got = reader.modes(vals[0])
+            r.violate('Buffer.c:__Pyx_BufFmt_Init:default-mode:%s' % f, BUFFER_C, init.line,
+                      "a format string without prefix means '@' (native sizes, native alignment) in the struct module, but __Pyx_BufFmt_Init starts with %s = %r which "
+                      "__Pyx_BufFmt_ProcessTypeChunk reads as %s sizes / %s alignment: array('l') or a numpy record array no longer matches its dtype" % (f, vals[0], got[0], got[1]))
     for suffix, msg in problems(rows, reader, host):
         if suffix == 'probe':
             r.violate('ModuleSetupCode.c:__Pyx_Is_Little_Endian:probe', SETUP_C, pr.line, msg)
@@ -376,4 +389,2491 @@ def rule_order(ctx, func):
     prow, _f, preader, phost = decision_table(POSITIVE_CHECK, POSITIVE_CHUNK, POSITIVE_PROBE, probe_name='is_le')
     got = {s for s, _ in problems(prow, preader, phost)}
     r.positive_control(got == {'!:little-host', '!:big-host'}, "merged guard `(*p == '>') == is_le()` lets '!' through on little-endian hosts")
+    return r
+
+
+# =====================================================================================================================
+# Round 4: path / def-use / decision-table rules for the parts of the acquisition check the table rules do not look at.
+# =====================================================================================================================
+import ast as _ast
+
+
+def _section_of(ctx, file, section):
+    out = [d for v in ctx.cat.decls.values() for d in v if d.kind == 'func' and d.body and d.file == file and d.section.name == section]
+    return sorted(out, key=lambda d: d.line)
+
+
+def _paths(body, what):
+    try:
+        return P.Explorer(P.parse_body(body)).function()
+    except P.Unmodelled as e:
+        raise AnalysisError('%s: path exploration gave up: %s' % (what, e))
+
+
+def _ret_const(ex, st):
+    """value of a `return e` on this path as an int, or None"""
+    if ex[0] != 'return' or not ex[1]:
+        return None
+    try:
+        e = cexpr.parse(ex[1])
+    except cexpr.ParseError:
+        return None
+    return P.Explorer([]).const_of(e, st)
+
+
+# ---------------------------------------------------------------------------------------------------------------- C17-SKIP
+def option_flow(ctx, helper='__Pyx_GetBufferAndValidate'):
+    """Which C parameter of the legacy acquisition helper receives which buffer option: {'cast': param name, 'ndim': param name}.
+    The argument expressions of the emitted call are followed through one local assignment and int()/bool() wrappers to the
+    attribute they read (buffer_type.cast, buffer_type.ndim); the macro is followed to the function it forwards to."""
+    from .iface import emitted_calls_fn
+    found = None
+    for fn in _ast.walk(ctx.parse('Cython/Compiler/Buffer.py')):
+        if not isinstance(fn, _ast.FunctionDef):
+            continue
+        for n, name, args, argph in emitted_calls_fn(fn):
+            if name == helper and args is not None:
+                found = (fn, args, argph)
+    if found is None:
+        raise AnalysisError('Buffer.py no longer emits a call to %s' % helper)
+    fn, args, argph = found
+    assigns = {}
+    for n in _ast.walk(fn):
+        if isinstance(n, _ast.Assign) and len(n.targets) == 1 and isinstance(n.targets[0], _ast.Name):
+            assigns.setdefault(n.targets[0].id, []).append(n.value)
+
+    def attr_of(p, depth=0):
+        while isinstance(p, _ast.Call) and p.args and isinstance(p.func, _ast.Name) and p.func.id in ('int', 'bool', 'str'):
+            p = p.args[0]
+        if isinstance(p, _ast.FormattedValue):
+            p = p.value
+        if isinstance(p, _ast.Attribute):
+            return p.attr
+        if isinstance(p, _ast.Name) and depth < 2:
+            vals = assigns.get(p.id, [])
+            got = {attr_of(v, depth + 1) for v in vals}
+            if len(got) == 1:
+                return got.pop()
+        return None
+    decls = [d for d in ctx.cat.decls.get(helper, []) if d.kind in ('macro', 'func')]
+    if not decls:
+        raise AnalysisError('%s is not declared in the utility library' % helper)
+    d = decls[0]
+    target = d
+    if d.kind == 'macro':
+        params = [p.strip() for p in (d.params or [])]
+        mm = re.search(r'(__Pyx_\w+)\s*\(([^()]*)\)\s*\)?\s*$', P.norm(d.body or ''))
+        if not mm:
+            raise AnalysisError('%s: macro body does not forward to a function' % helper)
+        fdecl = [x for x in ctx.cat.decls.get(mm.group(1), []) if x.kind == 'func' and x.body]
+        if not fdecl:
+            raise AnalysisError('%s forwards to %s which has no definition' % (helper, mm.group(1)))
+        target = fdecl[0]
+        fwd = [a.strip() for a in mm.group(2).split(',')]
+        pos_of = {}
+        for i, a in enumerate(fwd):
+            if a in params:
+                pos_of[params.index(a)] = i
+    else:
+        pos_of = {i: i for i in range(len(d.param_names()))}
+    pn = target.param_names()
+    flow = {}
+    for i, ph in enumerate(argph):
+        if len(ph) != 1 or ph[0] is None:
+            continue
+        a = attr_of(ph[0])
+        if a in ('cast', 'ndim') and i in pos_of and pos_of[i] < len(pn):
+            flow[a] = pn[pos_of[i]]
+    if 'cast' not in flow or 'ndim' not in flow:
+        raise AnalysisError('cannot follow the buffer options cast / ndim into the parameters of %s (found %s)' % (target.name, flow))
+    return target, flow
+
+
+def skip_findings(d, cast_param, nd_param=None):
+    """-> (number of successful paths, [(key suffix, message)]) for one acquisition entry point."""
+    bad = {}
+    dt = [n for n, t in zip(d.param_names(), d.param_types()) if n and '__Pyx_TypeInfo' in t] if hasattr(d, 'param_names') else []
+    dtype_param = dt[0] if dt else None
+    paths = _paths(d.body, d.name)
+    ok_paths = 0
+    for st, ex in paths:
+        v = _ret_const(ex, st)
+        if v is None:
+            raise AnalysisError('%s: return value of a path is not a constant (%s)' % (d.name, ex))
+        if v != 0:
+            continue
+        ok_paths += 1
+        checked = [ev for ev in st.events if ev[0] == 'call' and ev[1] == '__Pyx_BufFmt_CheckString']
+        if checked:
+            continue
+        reasons = []
+        for text, truth, _ in st.facts:
+            m = re.match(r'__pyx_typeinfo_cmp\((.*)\)$', text)
+            if truth and m:
+                args = [a.strip() for a in P._split_top(m.group(1), ',')]
+                # a comparison of the declared dtype with something else (the descriptor of the object at hand)
+                if len(args) == 2 and args[0] != args[1] and (dtype_param is None or dtype_param in args):
+                    reasons.append('dtype equality established by %s' % text)
+        if cast_param is not None:
+            val = st.env.get(cast_param)
+            if val is not None and st.is_zero(val) is False:
+                reasons.append('cast requested')
+        if reasons:
+            continue
+        cond = ', '.join('%s=%s' % (t, 'true' if v else 'false') for t, v, _ in st.facts if not t.startswith('switch(')
+                         and (re.search(r'typeinfo_cmp|memoryview_check|\bcast\b|new_memview|from_memoryview', t)))
+        bad.setdefault('format-check-skipped', (
+            "%s can return success without calling __Pyx_BufFmt_CheckString on a path where neither the dtype was compared equal (__pyx_typeinfo_cmp true) nor "
+            "the caller asked for cast=True%s: a buffer whose item format differs from the declared dtype is accepted and its bytes are re-interpreted"
+            % (d.name, (' [path: %s]' % cond) if cond else '')))
+    return ok_paths, sorted(bad.items())
+
+
+POSITIVE_SKIP = """{
+    if (from_mv || cmp_unused(dtype)) { memview = obj; new_memview = NULL; }
+    else { memview = make(obj); new_memview = memview; if (unlikely(!memview)) goto fail; }
+    if (new_memview) { __Pyx_BufFmt_Init(&ctx, stack, dtype); if (unlikely(!__Pyx_BufFmt_CheckString(&ctx, buf->format))) goto fail; }
+    retval = 0; goto done;
+fail:
+    retval = -1;
+done:
+    return retval;
+}"""
+
+
+def rule_skip(ctx, entry_points):
+    r = Rule('C17-SKIP', 'every successful path through an acquisition entry point runs the format check, unless it established dtype equality (__pyx_typeinfo_cmp true) '
+             'or the buffer option cast (followed from Buffer.py into its C parameter) is set; the ndim test compares with the parameter that receives the ndim option', floor=4)
+    target, flow = option_flow(ctx)
+    r.inst('Buffer.get_getbuffer_call:cast->%s' % flow['cast'], sample='buffer option cast reaches parameter `%s` of %s, ndim reaches `%s`' % (flow['cast'], target.name, flow['ndim']))
+    for d in entry_points:
+        cast_param = flow['cast'] if d.name == target.name else None
+        n, bad = skip_findings(d, cast_param)
+        r.inst('%s:format-check-on-success' % d.name, sample='%s: %d successful paths explored' % (d.name, n))
+        if n == 0:
+            raise AnalysisError('%s: no successful path found' % d.name)
+        for k, msg in bad:
+            r.violate('%s:%s' % (d.name, k), 'Cython/Utility/' + d.file, d.line, msg)
+        if d.name == target.name:
+            r.inst('%s:ndim-parameter' % d.name)
+            nd = re.escape(flow['ndim'])
+            if not (re.search(r'->\s*ndim\s*!=\s*%s\b' % nd, d.body) or re.search(r'\b%s\s*!=\s*\w+\s*->\s*ndim\b' % nd, d.body)):
+                r.violate('%s:ndim-parameter' % d.name, 'Cython/Utility/' + d.file, d.line,
+                          "Buffer.py passes the declared ndim as parameter `%s` of %s, but the function does not compare buf->ndim with it: buffers with the wrong number of dimensions are accepted"
+                          % (flow['ndim'], d.name))
+
+    class _D:
+        name, body, file, line = 'pc', POSITIVE_SKIP, 'x.c', 0
+    n, bad = skip_findings(_D, None)
+    r.positive_control(n >= 2 and [k for k, _ in bad] == ['format-check-skipped'], 'shortcut taken on `from_mv || cmp` skips the format check without a dtype comparison')
+    return r
+
+
+# ---------------------------------------------------------------------------------------------------------------- C17-END
+def _arm_paths(fn_body, label):
+    """paths through the arm of the scanner switch that handles `label` (fall-through followed), from the arm's first statement."""
+    stmts = P.parse_body(fn_body)
+    sw = None
+    for s in P.walk(stmts):
+        if s.kind == 'switch' and re.fullmatch(r'\*\s*(\w+)', s.text):
+            sw = s
+            break
+    if sw is None:
+        raise AnalysisError('no switch over the format cursor')
+    arms = P.switch_arms(sw)
+    arm = [a for a in arms if label in a.labels]
+    if not arm:
+        return None
+    body = [x for link in arms[arm[0].index:] for x in link.body]
+    ex = P.Explorer(body)
+    try:
+        return ex.stmts(body, P.PState())
+    except P.Unmodelled as e:
+        raise AnalysisError('scanner arm %r: %s' % (label, e))
+
+
+def end_findings(fn_body, consumed_field):
+    """NUL arm: every path that returns the cursor (success) has established `<consumed_field> == NULL` after the last chunk was processed."""
+    paths = _arm_paths(fn_body, '\0')
+    if paths is None:
+        return 0, [('no-nul-arm', 'the scanner has no `case 0` arm')]
+    n, bad = 0, []
+    for st, ex in paths:
+        if ex[0] != 'return':
+            continue
+        if P.strip_parens(ex[1]) in ('NULL', '0'):
+            continue
+        n += 1
+        val = st.env.get(consumed_field)
+        if val is None or st.is_zero(val) is not True:
+            bad.append(('end:fields-consumed', "the `case 0` arm of the format scanner returns success on a path where `%s == NULL` (all fields of the declared dtype were matched) "
+                        "was not established after the last chunk was processed: a format string that ends early (e.g. 'i4x' for a struct of two ints) is accepted" % consumed_field))
+            break
+    return n, bad
+
+
+def rule_end(ctx, func):
+    r = Rule('C17-END', 'the format scanner accepts the end of the format string only when every field of the declared dtype has been matched (head == NULL established after the last chunk)', floor=1)
+    cs = func(ctx, '__Pyx_BufFmt_CheckString')
+    pc = func(ctx, '__Pyx_BufFmt_ProcessTypeChunk')
+    # the "all consumed" state: the context field ProcessTypeChunk sets to NULL when the root field is passed
+    m = re.search(r'(\w+\s*->\s*\w+)\s*=\s*NULL\s*;', pc.body)
+    if not m:
+        raise AnalysisError('__Pyx_BufFmt_ProcessTypeChunk: no `ctx->... = NULL` marking the end of the dtype')
+    field = re.sub(r'\s+', '', m.group(1))
+    n, bad = end_findings(cs.body, field)
+    r.inst('__Pyx_BufFmt_CheckString:end:fields-consumed', sample='%d successful paths through the NUL arm; consumed state = %s == NULL' % (n, field))
+    if n == 0 and not bad:
+        raise AnalysisError('__Pyx_BufFmt_CheckString: the NUL arm has no successful path')
+    for k, msg in bad:
+        r.violate('__Pyx_BufFmt_CheckString:%s' % k, BUFFER_C, cs.line, msg)
+    pcn, pcbad = end_findings("{ while (1) { switch (*p) { case 0: if (chunk(c) == -1) return NULL; return p; default: return NULL; } } }", 'c->head')
+    r.positive_control(pcn == 1 and len(pcbad) == 1, 'NUL arm returning the cursor without testing the consumed state')
+    return r
+
+
+# ---------------------------------------------------------------------------------------------------------------- C17-COUNT
+def pending_fields(section_funcs):
+    """context fields that receive a number parsed from the format string: `ctx->F = (cast) v` with v assigned from a *Number(...) call."""
+    out = set()
+    for d in section_funcs:
+        numvars = set(re.findall(r'\b(\w+)\s*=\s*\w*Number\s*\(', d.body))
+        for m in re.finditer(r'\b\w+\s*->\s*(\w+)\s*=\s*(?:\([^()]*\)\s*)?(\w+)\s*;', d.body):
+            if m.group(2) in numvars:
+                out.add(m.group(1))
+    return out
+
+
+def count_findings(name, paths, field_re):
+    """a path on which the pending value is overwritten by a literal before anything read it"""
+    bad = []
+    for st, ex in paths:
+        read = False
+        for ev in st.events:
+            if ev[0] == 'read' and field_re.fullmatch(ev[1]):
+                read = True
+            elif ev[0] == 'call' and any(field_re.search(a) for a in (ev[2] or [])):
+                read = True
+            elif ev[0] == 'write' and field_re.fullmatch(ev[1]):
+                op, rhs = ev[2] if isinstance(ev[2], tuple) else ('=', '')
+                if op == '=' and re.fullmatch(r'\(?\s*\d+\s*\)?', rhs) and not read:
+                    bad.append(rhs)
+                    break
+                if op == '=' and not re.fullmatch(r'\(?\s*\d+\s*\)?', rhs):
+                    read = False if False else read
+        if bad:
+            break
+    return bad
+
+
+def rule_count(ctx, section_funcs):
+    r = Rule('C17-COUNT', 'a repeat count parsed from the format string is consumed before it is reset: no path through a scanner arm overwrites the pending count with a '
+             'literal without having read it', floor=5)
+    fields = pending_fields(section_funcs)
+    if not fields:
+        raise AnalysisError('no context field receives a number parsed from the format string')
+    for f in sorted(fields):
+        fre = re.compile(r'\w+->%s' % re.escape(f))
+        for d in section_funcs:
+            params = ' '.join(d.param_types())
+            if 'char' not in params:           # only functions that consume the format cursor
+                continue
+            resets = re.findall(r'->\s*%s\s*=\s*\d+\s*;' % re.escape(f), d.body)
+            if not resets:
+                continue
+            stmts = P.parse_body(d.body)
+            sw = None
+            for s in P.walk(stmts):
+                if s.kind == 'switch' and re.fullmatch(r'\*\s*(\w+)', s.text):
+                    sw = s
+                    break
+            units = []
+            inside = sw is not None and any(re.search(r'->\s*%s\s*=\s*\d+\s*$' % re.escape(f), x.text) for x in P.walk(P.as_list(sw.body)) if x.kind == 'simple')
+            if inside:
+                arms = P.switch_arms(sw)
+                for a in arms:
+                    body = [x for link in arms[a.index:] for x in link.body]
+                    reach = [x for link in P.chain(arms, a.index) for x in link.body]
+                    if not any(re.search(r'->\s*%s\s*=\s*\d+\s*$' % re.escape(f), s.text) for s in P.walk(reach) if s.kind == 'simple'):
+                        continue
+                    lab = ','.join(repr(l)[1:-1] if isinstance(l, str) else str(l) for l in a.labels) or 'default'
+                    try:
+                        units.append(('arm[%s]' % lab, P.Explorer(body).stmts(body, P.PState())))
+                    except P.Unmodelled as e:
+                        raise AnalysisError('%s arm %s: %s' % (d.name, lab, e))
+            else:
+                units.append(('body', _paths(d.body, d.name)))
+            for uname, paths in units:
+                key = '%s:%s:%s' % (d.name, uname, f)
+                r.inst(key, sample='%s %s: %d paths, pending field %s' % (d.name, uname, len(paths), f))
+                if count_findings(d.name, paths, fre):
+                    r.violate(key, BUFFER_C, d.line,
+                              "%s (%s) resets ctx->%s to a constant on a path that never read it: the repeat count written in front of this format item is ignored "
+                              "(e.g. '3x' pads one byte, 'i2i' counts two ints), so offsets / item counts of struct formats are mis-computed" % (d.name, uname, f))
+    body = P.parse_body("{ c->off += 1; c->cnt = 1; ++p; }")
+    pcp = P.Explorer(body).stmts(body, P.PState())
+    body2 = P.parse_body("{ if (c->cnt != 1) { return -1; } c->cnt = 1; }")
+    pcp2 = P.Explorer(body2).stmts(body2, P.PState())
+    fre = re.compile(r'\w+->cnt')
+    r.positive_control(bool(count_findings('pc', pcp, fre)) and not count_findings('pc', pcp2, fre), 'count reset without a read fires; read in a guard first is fine')
+    return r
+
+
+# ---------------------------------------------------------------------------------------------------------------- C17-STATE
+def state_findings(fields, funcs_text, var='ctx'):
+    """fields of the scanner context that are read but only ever assigned one constant -> [(field, the constant)]"""
+    out = []
+    for f in fields:
+        pat = r'\b%s\s*->\s*%s\b' % (re.escape(var), re.escape(f))
+        writes, reads = set(), 0
+        for m in re.finditer(pat + r'(?P<rest>\s*(?:\[[^\]]*\])?\s*(?P<op>\+\+|--|=(?!=)|\+=|-=|\*=|/=|%=)?)', funcs_text):
+            op = m.group('op')
+            before = funcs_text[max(0, m.start() - 3):m.start()]
+            if re.search(r'(\+\+|--)\s*$', before):
+                writes.add('<var>')
+                continue
+            if op is None:
+                reads += 1
+                continue
+            if op != '=':
+                writes.add('<var>')
+                continue
+            rhs = funcs_text[m.end():funcs_text.index(';', m.end())].strip()
+            rhs_n = P.strip_parens(rhs)
+            if re.fullmatch(r"\d+|'(?:\\.|[^'\\])'|NULL", rhs_n):
+                writes.add(rhs_n)
+            else:
+                writes.add('<var>')
+        if reads and len(writes) < 2:
+            out.append((f, sorted(writes)[0] if writes else None))
+    return out
+
+
+def rule_state(ctx, section_funcs):
+    r = Rule('C17-STATE', 'every field of the format-scanner context that the scanner reads can take more than one value: a field that is only ever assigned one constant '
+             'makes the decisions taken on it dead (complex flag never set, array flag never set, ...)', floor=8)
+    proto = ctx.cat.section('Buffer.c', 'BufferFormatStructs', 'proto')
+    if proto is None:
+        raise AnalysisError('Buffer.c::BufferFormatStructs.proto missing')
+    members = struct_members(proto.text or proto.raw, '__Pyx_BufFmt_Context')
+    text = '\n'.join(d.body for d in section_funcs)
+    # the context pointer is called ctx in every function of the section (parameter of type __Pyx_BufFmt_Context*)
+    names = {n for d in section_funcs for n, t in zip(d.param_names(), d.param_types()) if n and '__Pyx_BufFmt_Context' in t}
+    if len(names) != 1:
+        raise AnalysisError('the scanner functions name their context parameter differently: %s' % sorted(names))
+    var = names.pop()
+    scalar = [m for m, t in members if not re.search(r'__Pyx_StructField\b(?!\s*\*)', t)]
+    for f in scalar:
+        r.inst('__Pyx_BufFmt_Context.%s' % f, sample='context field %s' % f)
+    for f, const in state_findings(scalar, text, var):
+        r.violate('__Pyx_BufFmt_Context.%s:constant' % f, BUFFER_C, section_funcs[0].line,
+                  "the scanner reads %s->%s but the only value it is ever assigned is %s: every decision taken on that field is dead "
+                  "(e.g. is_complex never set -> 'Zd' is compared as a real double; is_valid_array never set -> sub-array fields are always refused)" % (var, f, const))
+    bad = state_findings(['flag', 'n'], "ctx->flag = 0; if (ctx->flag) x(); ctx->n = 0; ctx->n += 2; if (ctx->n) y(); ctx->flag = 0;")
+    r.positive_control(bad == [('flag', '0')], 'field assigned 0 twice and read')
+    return r
+
+
+def struct_members(text, name):
+    """typedef struct { ... } name;  -> [(member, type text)] in declaration order (comments already blanked)"""
+    m = re.search(r'typedef\s+struct\s*(?:\w+\s*)?\{([^{}]*)\}\s*%s\s*;' % re.escape(name), text)
+    if not m:
+        raise AnalysisError('typedef struct %s not found' % name)
+    out = []
+    for decl in m.group(1).split(';'):
+        decl = ' '.join(decl.split())
+        if not decl:
+            continue
+        mm = re.fullmatch(r'(?P<t>.+?[\s\*])(?P<names>\w+(?:\s*\[[^\]]*\])?(?:\s*,\s*\w+(?:\s*\[[^\]]*\])?)*)', decl)
+        if not mm:
+            raise AnalysisError('struct %s: member declaration %r not understood' % (name, decl))
+        for n in mm.group('names').split(','):
+            n = n.strip()
+            arr = '[' in n
+            out.append((re.sub(r'\s*\[.*', '', n), mm.group('t').strip() + ('[]' if arr else '')))
+    return out
+
+
+# ---------------------------------------------------------------------------------------------------------------- C17-CHUNK
+def chunk_table(chunk_body, letters_t, letters_g):
+    """Decision table of the dtype-vs-format comparison in ProcessTypeChunk.
+    -> (rows {(T, G, size_equal, has_fields): outcome}, description) with outcome in accept / reject / descend."""
+    stmts = P.parse_body(chunk_body)
+    # the variables that hold the size / group derived from the format character
+    size_var = group_var = None
+    for m in re.finditer(r'\b(\w+)\s*=\s*__Pyx_BufFmt_TypeCharTo(\w+)\s*\(', chunk_body):
+        if m.group(2) in ('NativeSize', 'StandardSize'):
+            size_var = m.group(1)
+        elif m.group(2) == 'Group':
+            group_var = m.group(1)
+    if not size_var or not group_var:
+        raise AnalysisError('__Pyx_BufFmt_ProcessTypeChunk: the locals receiving TypeCharTo*Size / TypeCharToGroup were not found')
+    target = None
+    for s in P.walk(stmts):
+        if s.kind == 'if' and re.search(r'\b%s\b' % re.escape(size_var), s.text) and re.search(r'\b%s\b' % re.escape(group_var), s.text) \
+                and re.search(r'->\s*size\b', s.text) and re.search(r'->\s*typegroup\b', s.text):
+            target = s
+            break
+    if target is None:
+        raise AnalysisError('__Pyx_BufFmt_ProcessTypeChunk: the statement comparing type->size / type->typegroup with the format item was not found')
+    rows = {}
+    for T in letters_t:
+        for G in letters_g:
+            for same in (True, False):
+                for fields in (True, False):
+                    outs = set()
+                    ex = P.Explorer([target], consts={'NULL': 0})
+                    st = P.PState()
+                    # concrete environment: identifiers are bound by their role
+                    ids = set()
+                    for s in P.walk([target]):
+                        if s.kind == 'if':
+                            try:
+                                for x in cexpr.walk(P._parse(s.text)):
+                                    if x[0] == 'id':
+                                        ids.add(x[1])
+                            except cexpr.ParseError:
+                                raise AnalysisError('__Pyx_BufFmt_ProcessTypeChunk: condition %r not parsable' % s.text)
+                    for i in ids:
+                        if i == size_var:
+                            st.env[i] = ('const', 4)
+                        elif i == group_var:
+                            st.env[i] = ('const', ord(G))
+                        elif re.fullmatch(r'[\w>-]+->size', i):
+                            st.env[i] = ('const', 4 if same else 8)
+                        elif re.fullmatch(r'[\w>-]+->typegroup', i):
+                            st.env[i] = ('const', ord(T))
+                        elif re.fullmatch(r'[\w>-]+->fields', i):
+                            st.env[i] = ('const', 1 if fields else 0)
+                        elif i != 'NULL':
+                            raise AnalysisError('__Pyx_BufFmt_ProcessTypeChunk: the comparison reads %s, which the decision table does not model' % i)
+                    try:
+                        res = ex.stmts([target], st)
+                    except P.Unmodelled as e:
+                        raise AnalysisError('__Pyx_BufFmt_ProcessTypeChunk: %s' % e)
+                    for s1, exit_ in res:
+                        if s1.facts and any(not t.startswith('switch(') for t, _, _ in s1.facts):
+                            raise AnalysisError('__Pyx_BufFmt_ProcessTypeChunk: the comparison depends on %s, not decidable from (typegroup, group, size, fields)' % s1.facts[0][0])
+                        outs.add({'fall': 'accept', 'continue': 'descend', 'return': 'reject'}.get(exit_[0], exit_[0]))
+                    if len(outs) != 1:
+                        raise AnalysisError('__Pyx_BufFmt_ProcessTypeChunk: comparison not deterministic for T=%s G=%s' % (T, G))
+                    rows[(T, G, same, fields)] = outs.pop()
+    return rows
+
+
+def chunk_problems(rows, char_letter='H', complex_letter='C'):
+    """reference (the property): a format item is compatible when its size and its type group equal those of the declared field; the char group may pair with
+    any group of equal size (chars do not care about sign); a mismatch is an error, or -- for a complex-typed struct only -- a descent into the struct's fields."""
+    out = {}
+    for (T, G, same, fields), o in sorted(rows.items()):
+        compatible = same and T == G
+        charpair = same and T != G and char_letter in (T, G)
+        if compatible and o != 'accept':
+            out.setdefault('equal-rejected', "a format item with the size and type group ('%s') of the declared field is not accepted (%s): matching buffers are refused" % (T, o))
+        if o == 'accept' and not (compatible or charpair):
+            out.setdefault('mismatch-accepted:%s' % ('size' if T == G else 'group' if same else 'both'),
+                           "a format item of type group '%s'%s is ACCEPTED for a field of type group '%s' (%s): the bytes of the buffer are re-interpreted instead of raising ValueError"
+                           % (G, '' if same else ' and a different size', T, 'e.g. a float32 buffer acquired by an int[:] view' if same else 'e.g. a 4-byte item matched against a 1-byte field'))
+        if o == 'descend' and not (T == complex_letter and fields):
+            out.setdefault('descend', "the comparison descends into the fields of a type of group '%s' with fields %s: NULL dereference / wrong match" % (T, 'present' if fields else 'NULL'))
+    return sorted(out.items())
+
+
+def rule_chunk(ctx, func, produced, returned):
+    r = Rule('C17-CHUNK', 'decision table of the dtype-vs-format comparison of __Pyx_BufFmt_ProcessTypeChunk over (declared type group) x (format type group) x (sizes equal?) x (struct fields?): '
+             'equal size and group is accepted, any other pairing except the equal-size char exemption is rejected or (complex struct) descended into', floor=165)
+    pc = func(ctx, '__Pyx_BufFmt_ProcessTypeChunk')
+    rows = chunk_table(pc.body, sorted(produced), sorted(returned))
+    for k, o in rows.items():
+        r.inst('chunk:%s:%s:%s:%s' % k, sample="declared '%s' vs format '%s', sizes %s, fields %s -> %s" % (k[0], k[1], 'equal' if k[2] else 'differ', 'present' if k[3] else 'NULL', o))
+    for k, msg in chunk_problems(rows):
+        r.violate('__Pyx_BufFmt_ProcessTypeChunk:compare:%s' % k, BUFFER_C, pc.line, msg)
+    pcrows = chunk_table("{ size = __Pyx_BufFmt_TypeCharToNativeSize(c, z); group = __Pyx_BufFmt_TypeCharToGroup(c, z); "
+                         "if (type->size != size && type->typegroup != group) { if (type->typegroup == 'C' && type->fields != NULL) { continue; } return -1; } }", 'CI', 'IR')
+    r.positive_control({k for k, _ in chunk_problems(pcrows)} >= {'mismatch-accepted:group', 'mismatch-accepted:size'}, '&& instead of || accepts one-sided mismatches')
+    return r
+
+
+# ---------------------------------------------------------------------------------------------------------------- C17-CMP
+def cmp_findings(body, params, info_members, field_members, skip=('name',)):
+    """__pyx_typeinfo_cmp(a, b): every member of the type descriptor that the format checker consults is compared for equality between a and b;
+    pointer members are compared through their targets.  -> [(key, message)]"""
+    a, b = params
+    bad = []
+    text = P.norm(body)
+
+    def eq_compared(m, x=a, y=b, src=text):
+        idx = r'(?:\s*\[[^\]]*\])?'
+        pat1 = r'\b%s\s*->\s*%s%s\s*(==|!=|<=|>=|<|>)\s*%s\s*->\s*%s%s' % (re.escape(x), m, idx, re.escape(y), m, idx)
+        pat2 = r'\b%s\s*->\s*%s%s\s*(==|!=|<=|>=|<|>)\s*%s\s*->\s*%s%s' % (re.escape(y), m, idx, re.escape(x), m, idx)
+        ops = [mm.group(1) for mm in re.finditer(pat1, src)] + [mm.group(1) for mm in re.finditer(pat2, src)]
+        return ops
+    for m, t in info_members:
+        if m in skip:
+            continue
+        if '*' in t:        # pointer to the field table: compared element-wise
+            # locals that walk the two tables
+            la = re.findall(r'\b(\w+)\s*=\s*%s\s*->\s*%s\s*(?:\+|;|\[)' % (re.escape(a), m), text) + re.findall(r'\b(\w+)\s*=\s*&\s*%s\s*->\s*%s\s*\[' % (re.escape(a), m), text)
+            lb = re.findall(r'\b(\w+)\s*=\s*%s\s*->\s*%s\s*(?:\+|;|\[)' % (re.escape(b), m), text) + re.findall(r'\b(\w+)\s*=\s*&\s*%s\s*->\s*%s\s*\[' % (re.escape(b), m), text)
+            if not la or not lb:
+                bad.append((m, "the %s tables of the two type descriptors are not walked side by side" % m))
+                continue
+            for fm, ft in field_members:
+                if fm in skip:
+                    continue
+                if '*' in ft and 'char' not in ft:
+                    rec = re.search(r'\w+\s*\(\s*%s\s*->\s*%s\s*,\s*%s\s*->\s*%s\s*\)' % (re.escape(la[0]), fm, re.escape(lb[0]), fm), text) or \
+                        re.search(r'\w+\s*\(\s*%s\s*->\s*%s\s*,\s*%s\s*->\s*%s\s*\)' % (re.escape(lb[0]), fm, re.escape(la[0]), fm), text)
+                    if not rec:
+                        bad.append(('%s.%s' % (m, fm), "the %s of corresponding struct fields are not compared recursively" % fm))
+                    continue
+                ops = eq_compared(fm, la[0], lb[0])
+                if not ops:
+                    bad.append(('%s.%s' % (m, fm), "struct fields are compared without their `%s`: two struct dtypes that differ only in the %s of a field (packed vs padded) compare equal" % (fm, fm)))
+                elif any(o not in ('==', '!=') for o in ops):
+                    bad.append(('%s.%s' % (m, fm), "the `%s` of corresponding struct fields is compared with an ordering (%s) instead of (in)equality" % (fm, ops[0])))
+            continue
+        ops = eq_compared(m)
+        if not ops:
+            bad.append((m, "member `%s` of the type descriptor is consulted by the format checker but not compared by the dtype-equality shortcut: two dtypes that differ in `%s` "
+                           "compare equal and the format check is skipped" % (m, m)))
+        elif any(o not in ('==', '!=') for o in ops):
+            bad.append((m, "member `%s` is compared with an ordering (%s) instead of (in)equality: dtypes with a different `%s` compare equal" % (m, [o for o in ops if o not in ('==', '!=')][0], m)))
+    return bad
+
+
+def rule_cmp(ctx, func, section_funcs):
+    r = Rule('C17-CMP', 'the dtype-equality shortcut (__pyx_typeinfo_cmp, which lets a Cython memoryview skip the format check) compares for (in)equality every member of '
+             '__Pyx_TypeInfo / __Pyx_StructField that the format checker consults', floor=5)
+    proto = ctx.cat.section('Buffer.c', 'BufferFormatStructs', 'proto')
+    if proto is None:
+        raise AnalysisError('Buffer.c::BufferFormatStructs.proto missing')
+    ptext = proto.text or proto.raw
+    info = struct_members(ptext, '__Pyx_TypeInfo')
+    fld = struct_members(ptext, '__Pyx_StructField')
+    checker = '\n'.join(d.body for d in section_funcs)
+    # members the checker consults, outside error formatting
+    plain = re.sub(r'PyErr_Format\s*\((?:[^()]|\([^()]*\))*\)', '', checker)
+    used_info = [(m, t) for m, t in info if re.search(r'->\s*%s\b' % re.escape(m), plain)]
+    used_fld = [(m, t) for m, t in fld if re.search(r'->\s*%s\b' % re.escape(m), plain)]
+    d = func(ctx, '__pyx_typeinfo_cmp')
+    params = [n for n, t in zip(d.param_names(), d.param_types()) if '__Pyx_TypeInfo' in t]
+    if len(params) != 2:
+        raise AnalysisError('__pyx_typeinfo_cmp: expected two __Pyx_TypeInfo parameters')
+    # `name` is consulted only to build error messages (it reaches PyErr_Format through a local): diagnostic, not part of the comparison
+    body = d.body
+    # comparisons delegated to a helper that is handed both descriptors are read in the helper (parameters renamed to the caller's)
+    for m in re.finditer(r'\b(\w+)\s*\(\s*(%s|%s)\s*,\s*(%s|%s)\s*\)' % (params[0], params[1], params[0], params[1]), d.body):
+        if m.group(1) == d.name or m.group(2) == m.group(3):
+            continue
+        for h in ctx.cat.decls.get(m.group(1), []):
+            if h.kind == 'func' and h.body and len([t for t in h.param_types() if '__Pyx_TypeInfo' in t]) == 2:
+                hp = [n for n, t in zip(h.param_names(), h.param_types()) if '__Pyx_TypeInfo' in t]
+                hb = re.sub(r'\b%s\b' % re.escape(hp[0]), '\x00A', h.body)
+                hb = re.sub(r'\b%s\b' % re.escape(hp[1]), '\x00B', hb)
+                body += ' ' + hb.replace('\x00A', m.group(2)).replace('\x00B', m.group(3))
+    bad = dict(cmp_findings(body, params, used_info, used_fld))
+    for m, t in used_info:
+        if m == 'name':
+            continue
+        r.inst('__pyx_typeinfo_cmp:%s' % m, sample='member %s (%s) consulted by the checker' % (m, t))
+        if '*' in t:
+            for fm, ft in used_fld:
+                if fm != 'name':
+                    r.inst('__pyx_typeinfo_cmp:%s.%s' % (m, fm))
+    for k, msg in sorted(bad.items()):
+        r.violate('__pyx_typeinfo_cmp:%s' % k, BUFFER_C, d.line, '__pyx_typeinfo_cmp: ' + msg + ' (int view accepted as another dtype without any format check)')
+    pcb = cmp_findings("{ if (a->size != b->size) return 0; for (i = 0; i < a->ndim; i++) if (a->arraysize[i] > b->arraysize[i]) return 0; return 1; }", ('a', 'b'),
+                       [('size', 'size_t'), ('ndim', 'int'), ('arraysize', 'size_t[]')], [])
+    r.positive_control({k for k, _ in pcb} == {'ndim', 'arraysize'}, 'member never compared; member compared with >')
+    return r
+
+
+# ---------------------------------------------------------------------------------------------------------------- C17-SLOT
+HOLE = '§'
+
+
+def _env_of(fn):
+    env = {}
+    for n in _ast.walk(fn):
+        if isinstance(n, _ast.Assign) and len(n.targets) == 1 and isinstance(n.targets[0], _ast.Name):
+            env.setdefault(n.targets[0].id, []).append(n.value)
+    return env
+
+
+def segments(expr, env, depth=0):
+    """emitted text as a list of ('text', str) / ('hole', expression node), or None when the shape is not a template"""
+    if depth > 4:
+        return None
+    if isinstance(expr, _ast.Constant) and isinstance(expr.value, str):
+        return [('text', expr.value)]
+    if isinstance(expr, _ast.Name):
+        vals = env.get(expr.id, [])
+        if len(vals) == 1:
+            return segments(vals[0], env, depth + 1)
+        return None
+    if isinstance(expr, _ast.JoinedStr):
+        out = []
+        for v in expr.values:
+            if isinstance(v, _ast.Constant):
+                out.append(('text', v.value))
+            elif isinstance(v, _ast.FormattedValue):
+                out.append(('hole', v.value))
+            else:
+                return None
+        return out
+    if isinstance(expr, _ast.BinOp) and isinstance(expr.op, _ast.Add):
+        a, b = segments(expr.left, env, depth + 1), segments(expr.right, env, depth + 1)
+        return None if a is None or b is None else a + b
+    if isinstance(expr, _ast.BinOp) and isinstance(expr.op, _ast.Mod):
+        left = segments(expr.left, env, depth + 1)
+        if left is None or any(k != 'text' for k, _ in left):
+            return None
+        tmpl = ''.join(v for _, v in left)
+        right = expr.right
+        if isinstance(right, _ast.Name) and len(env.get(right.id, [])) == 1:
+            right = env[right.id][0]
+        parts = list(right.elts) if isinstance(right, _ast.Tuple) else [right]
+        pieces = re.split(r'%(?:[-0-9.]*)([sdrif%])', tmpl)
+        out, k = [], 0
+        for i, p in enumerate(pieces):
+            if i % 2 == 0:
+                if p:
+                    out.append(('text', p))
+            elif p == '%':
+                out.append(('text', '%'))
+            else:
+                if k >= len(parts):
+                    return None
+                out.append(('hole', parts[k]))
+                k += 1
+        if k != len(parts):
+            return None
+        return out
+    return None
+
+
+def shapes(expr, env, depth=0):
+    """finite set of the texts an expression can produce, unknown parts written as HOLE; None when not even that is known"""
+    if depth > 5:
+        return {HOLE}
+    if isinstance(expr, _ast.Constant):
+        return {str(expr.value)}
+    if isinstance(expr, _ast.Name):
+        vals = env.get(expr.id)
+        if not vals:
+            return {HOLE}
+        out = set()
+        for v in vals:
+            out |= shapes(v, env, depth + 1)
+        return out
+    if isinstance(expr, _ast.IfExp):
+        return shapes(expr.body, env, depth + 1) | shapes(expr.orelse, env, depth + 1)
+    if isinstance(expr, _ast.BoolOp) and isinstance(expr.op, _ast.Or):
+        out = set()
+        for v in expr.values:
+            out |= shapes(v, env, depth + 1)
+        return out
+    if isinstance(expr, _ast.Call) and isinstance(expr.func, _ast.Name) and expr.func.id == 'len':
+        return {'<int>'}
+    if isinstance(expr, _ast.Call) and isinstance(expr.func, _ast.Name) and expr.func.id in ('str', 'int') and expr.args:
+        return shapes(expr.args[0], env, depth + 1) if expr.func.id == 'str' else {'<int>'}
+    seg = segments(expr, env)
+    if seg is not None:
+        outs = {''}
+        for k, v in seg:
+            vals = {v} if k == 'text' else shapes(v, env, depth + 1)
+            outs = {a + b for a in outs for b in vals}
+            if len(outs) > 64:
+                return {HOLE}
+        return outs
+    return {HOLE}
+
+
+def _initialiser_slots(seg):
+    """segments of `... = { a, b, { c }, d };` -> list of slots, each a list of segments (top-level commas of the outer braces)"""
+    flat = []
+    for k, v in seg:
+        if k == 'text':
+            flat.extend(('ch', c) for c in v)
+        else:
+            flat.append(('hole', v))
+    try:
+        start = next(i for i, (k, c) in enumerate(flat) if k == 'ch' and c == '{')
+    except StopIteration:
+        return None
+    slots, cur, depth, quote = [], [], 0, False
+    for k, c in flat[start + 1:]:
+        if k == 'ch':
+            if c == '"':
+                quote = not quote
+            if not quote:
+                if c in '({[':
+                    depth += 1
+                elif c in ')}]':
+                    if depth == 0:
+                        slots.append(cur)
+                        return slots
+                    depth -= 1
+                elif c == ',' and depth == 0:
+                    slots.append(cur)
+                    cur = []
+                    continue
+        cur.append((k, c))
+    return None
+
+
+def _slot_values(slot, env):
+    outs = {''}
+    for k, v in slot:
+        vals = {v} if k == 'ch' else shapes(v, env)
+        outs = {a + b for a in outs for b in vals}
+        if len(outs) > 64:
+            return {HOLE}
+    return {o.strip() for o in outs}
+
+
+def slot_findings(fn, struct_name, members, roles, flag_macros):
+    """-> (n slots checked, [(key, message)]) for every emitted initialiser `static const <struct_name> ... = { ... }` / row `{...}` of such a table in fn"""
+    env = _env_of(fn)
+    bad, n = [], 0
+    found = False
+    slot_findings.values = {}
+    for call in _ast.walk(fn):
+        if not (isinstance(call, _ast.Call) and isinstance(call.func, _ast.Attribute) and call.func.attr in ('putln', 'put') and call.args):
+            continue
+        seg = segments(call.args[0], env)
+        if seg is None:
+            continue
+        head = ''.join(v for k, v in seg if k == 'text')
+        if not re.search(r'\b%s\b[^=]*=\s*\{' % re.escape(struct_name), ''.join(v if k == 'text' else 'X' for k, v in seg)):
+            continue
+        slots = _initialiser_slots(seg)
+        if slots is None:
+            raise AnalysisError('%s: initialiser of %s not understood' % (fn.name, struct_name))
+        found = True
+        if len(slots) != len(members):
+            bad.append(('count', 'the emitted %s initialiser has %d slots but the struct has %d members (%s)' % (struct_name, len(slots), len(members), ', '.join(m for m, _ in members))))
+            continue
+        for (m, t), slot in zip(members, slots):
+            vals = _slot_values(slot, env)
+            slot_findings.values[m] = vals
+            n += 1
+            role = roles.get(m)
+            for v in sorted(vals):
+                has_letter = bool(P.char_literals(v))
+                is_flag = any(re.search(r'\b%s\b' % re.escape(f), v) for f in flag_macros)
+                if v == HOLE:
+                    continue
+                if role == 'letter' and not has_letter:
+                    bad.append((m, "slot `%s` of the emitted %s is filled with `%s`, but the format checker compares %s with type-group letters: no dtype can ever match "
+                                   "(the values of two slots are exchanged?)" % (m, struct_name, v.replace(HOLE, '...'), m)))
+                    break
+                if role != 'letter' and has_letter and not t.startswith('const char'):
+                    bad.append((m, "slot `%s` of the emitted %s is filled with the type-group letter expression `%s`; the readers of `%s` never treat it as a letter" % (m, struct_name, v.replace(HOLE, '...'), m)))
+                    break
+                if role == 'flagset' and not (is_flag or v in ('0', '<int>')):
+                    bad.append((m, "slot `%s` of the emitted %s is filled with `%s`, but its readers test it against the %s flag macros" % (m, struct_name, v.replace(HOLE, '...'), '/'.join(sorted(flag_macros)))))
+                    break
+                if role != 'flagset' and is_flag:
+                    bad.append((m, "slot `%s` of the emitted %s receives the flag macro `%s`, which only the readers of another member test" % (m, struct_name, v)))
+                    break
+                if t.startswith('const char') and '*' in t and not v.startswith('"'):
+                    bad.append((m, "slot `%s` (a C string) of the emitted %s is filled with `%s`" % (m, struct_name, v.replace(HOLE, '...'))))
+                    break
+                if t.endswith('[]') and not v.startswith('{'):
+                    bad.append((m, "slot `%s` (an array) of the emitted %s is filled with `%s`" % (m, struct_name, v.replace(HOLE, '...'))))
+                    break
+    return found, n, bad
+
+
+def member_roles(members, reader_texts, flag_macros):
+    roles = {}
+    for m, t in members:
+        for txt in reader_texts:
+            if re.search(r"(?:->|\.)\s*%s\s*[!=]=\s*'(?:\\.|[^'\\])'" % re.escape(m), txt):
+                roles[m] = 'letter'
+            elif any(re.search(r"(?:->|\.)\s*%s\s*&\s*%s\b" % (re.escape(m), re.escape(f)), txt) for f in flag_macros) and m not in roles:
+                roles[m] = 'flagset'
+    return roles
+
+
+def sign_findings(values, letter_member, exporter_body, group_of):
+    """the letter written under `<cond> ? 'X' : 'Y'` where <cond> is also the value of the member the exporter reads as "is unsigned":
+    X must be the type group of the characters the exporter emits when that member is true.  -> (instances, [(key, msg)], infos)"""
+    m = re.search(r"->\s*(\w+)\s*\)?\s*\?\s*'", exporter_body)
+    if not m:
+        return 0, [], ['the format exporter has no `type->member ? upper : lower` choice: signedness link not decided']
+    sign_member = m.group(1)
+    true_chars, false_chars = set(), set()
+    for mm in re.finditer(r"->\s*%s\s*\)?\s*\?\s*('(?:\\.|[^'\\])')\s*:\s*('(?:\\.|[^'\\])')" % re.escape(sign_member), exporter_body):
+        true_chars.add(P.char_value(mm.group(1)))
+        false_chars.add(P.char_value(mm.group(2)))
+    lt = {group_of(c) for c in true_chars}
+    lf = {group_of(c) for c in false_chars}
+    if len(lt) != 1 or len(lf) != 1 or None in lt or None in lf:
+        return 0, [], ['exported signed/unsigned characters do not map to one type group each: %s / %s' % (sorted(map(str, lt)), sorted(map(str, lf)))]
+    lt, lf = lt.pop(), lf.pop()
+    conds = {re.sub(r'\s+', '', v) for v in values.get(sign_member, ()) if v not in ('0', '1', HOLE)}
+    n, bad, infos = 0, [], []
+    for v in sorted(values.get(letter_member, ())):
+        mm = re.fullmatch(r"\(?\s*(.+?)\s*\?\s*('(?:\\.|[^'\\])')\s*:\s*('(?:\\.|[^'\\])')\s*\)?", v)
+        if not mm:
+            continue
+        c = re.sub(r'\s+', '', mm.group(1))
+        if c in ('0', '1'):
+            continue
+        if c not in conds:
+            infos.append('type-group choice `%s` is not taken on the expression written to %s: not decided' % (v.replace(HOLE, '...'), sign_member))
+            continue
+        n += 1
+        x, y = P.char_value(mm.group(2)), P.char_value(mm.group(3))
+        if (x, y) != (lt, lf):
+            bad.append(('signedness', "the type group is written as `%s`, and the same condition fills `%s`; when it is true the exporter emits %s (type group '%s'), when false %s ('%s'): "
+                        "the letters are the wrong way round, so every signed dtype is declared unsigned (int[:] refuses 'i' buffers and accepts 'I' buffers)"
+                        % (v.replace(HOLE, '...'), sign_member, sorted(true_chars), lt, sorted(false_chars), lf)))
+    return n, bad, infos
+
+
+def rule_slot(ctx, reader_texts, exporter_body=None, group_of=None):
+    r = Rule('C17-SLOT', 'the positional __Pyx_TypeInfo initialiser written by Buffer.get_type_information_cname fills every member with a value of the kind its readers expect: '
+             'type-group letters go to the member the checker compares with letters, flag macros to the member tested against them, strings/arrays to string/array members', floor=7)
+    proto = ctx.cat.section('Buffer.c', 'BufferFormatStructs', 'proto')
+    if proto is None:
+        raise AnalysisError('Buffer.c::BufferFormatStructs.proto missing')
+    ptext = proto.text or proto.raw
+    members = struct_members(ptext, '__Pyx_TypeInfo')
+    flag_macros = set(re.findall(r'#\s*define\s+(__PYX_BUF_FLAGS_\w+)', proto.raw))
+    roles = member_roles(members, reader_texts, flag_macros)
+    if 'letter' not in roles.values():
+        raise AnalysisError('no member of __Pyx_TypeInfo is compared with a type-group letter by the checker')
+    rel = 'Cython/Compiler/Buffer.py'
+    from ..engine import tables as _tables
+    fn = _tables.find_function(ctx.parse(rel), 'get_type_information_cname')
+    if fn is None:
+        raise AnalysisError('Buffer.get_type_information_cname vanished')
+    found, n, bad = slot_findings(fn, '__Pyx_TypeInfo', members, roles, flag_macros)
+    if not found:
+        raise AnalysisError('get_type_information_cname: the emitted `static const __Pyx_TypeInfo ... = {...}` was not found')
+    for m, t in members:
+        r.inst('Buffer.get_type_information_cname:__Pyx_TypeInfo.%s' % m, sample='member %s (%s): role %s' % (m, t, roles.get(m, 'by type')))
+    seen = set()
+    for k, msg in bad:
+        if k in seen:
+            continue
+        seen.add(k)
+        r.violate('Buffer.get_type_information_cname:__Pyx_TypeInfo.%s' % k, rel, fn.lineno, msg)
+    if exporter_body is not None:
+        letter_member = [m for m, _ in members if roles.get(m) == 'letter'][0]
+        n2, bad2, infos = sign_findings(slot_findings.values, letter_member, exporter_body, group_of)
+        for i in infos:
+            r.info(i)
+        for _ in range(n2):
+            r.inst('Buffer.get_type_information_cname:%s:signedness' % letter_member, sample='signed/unsigned letter choice agrees with the exporter')
+        for k, msg in bad2:
+            r.violate('Buffer.get_type_information_cname:%s:%s' % (letter_member, k), rel, fn.lineno, msg)
+        if n2 == 0 and not bad:
+            raise AnalysisError('get_type_information_cname: no signed/unsigned type-group choice found')
+    pcf = _ast.parse("def f(code, u):\n g = \"'R'\"\n if u: g = \"'C'\"\n s = '0'\n if u: s = 'IS_U(%s)' % u\n code.putln('static const T %s = { \"%s\", %s, %s };' % (u, u, s, g))\n").body[0]
+    _f, _n, pcbad = slot_findings(pcf, 'T', [('name', 'const char*'), ('group', 'char'), ('sign', 'char')], {'group': 'letter'}, set())
+    r.positive_control({k for k, _ in pcbad} == {'group', 'sign'}, 'letter variable written into the sign slot and vice versa')
+    return r
+
+
+# ---------------------------------------------------------------------------------------------------------------- C17-CONTIG / C17-CF
+MVC_C = 'Cython/Utility/MemoryView_C.c'
+
+
+class Poly:
+    """polynomial over named symbols with integer coefficients: {monomial (sorted tuple of names): coef}"""
+    __slots__ = ('t',)
+
+    def __init__(self, t=None):
+        self.t = {k: v for k, v in (t or {}).items() if v}
+
+    @staticmethod
+    def const(c):
+        return Poly({(): c})
+
+    @staticmethod
+    def sym(n):
+        return Poly({(n,): 1})
+
+    def is_const(self):
+        return all(k == () for k in self.t)
+
+    def value(self):
+        return self.t.get((), 0)
+
+    def __add__(self, o):
+        t = dict(self.t)
+        for k, v in o.t.items():
+            t[k] = t.get(k, 0) + v
+        return Poly(t)
+
+    def __neg__(self):
+        return Poly({k: -v for k, v in self.t.items()})
+
+    def __sub__(self, o):
+        return self + (-o)
+
+    def __mul__(self, o):
+        t = {}
+        for k1, v1 in self.t.items():
+            for k2, v2 in o.t.items():
+                k = tuple(sorted(k1 + k2))
+                t[k] = t.get(k, 0) + v1 * v2
+        return Poly(t)
+
+    def key(self):
+        return tuple(sorted(self.t.items()))
+
+    def __eq__(self, o):
+        return isinstance(o, Poly) and self.key() == o.key()
+
+    def __hash__(self):
+        return hash(self.key())
+
+    def __repr__(self):
+        return ' + '.join('%s%s' % ('' if v == 1 and k else '%d*' % v if k else str(v), '*'.join(k)) for k, v in sorted(self.t.items())) or '0'
+
+
+class SymGiveUp(Exception):
+    pass
+
+
+class StrideChecker:
+    """Symbolic execution of a contiguity validator `f(buf, ndim, flag)`: concrete ndim / flag, symbolic shape, strides and itemsize.
+    Result: the list of failure conditions [(frozenset of atoms)], atom = ('ne', Poly) meaning Poly != 0  or  ('gt', symbol, const)."""
+
+    def __init__(self, body, params, macros):
+        self.stmts = P.parse_body(body)
+        self.buf, self.ndim_p, self.flag_p = params
+        self.macros = macros
+
+    def run(self, ndim, flag):
+        self.env = {self.ndim_p: Poly.const(ndim), self.flag_p: Poly.const(flag)}
+        self.fails = []
+        self.steps = 0
+        self._block(self.stmts)
+        return self.fails
+
+    def _val(self, e):
+        k = e[0]
+        if k in ('num', 'char'):
+            return Poly.const(e[1])
+        if k == 'cast':
+            return self._val(e[2])
+        if k == 'call' and e[1] in ('likely', 'unlikely') and len(e[2]) == 1:
+            return self._val(e[2][0])
+        if k == 'id':
+            n = e[1]
+            if n in self.env:
+                return self.env[n]
+            if n in self.macros:
+                return Poly.const(self.macros[n])
+            m = re.fullmatch(r'%s->(\w+)' % re.escape(self.buf), n)
+            if m and m.group(1) == 'itemsize':
+                return Poly.sym('itemsize')
+            raise SymGiveUp('identifier %s' % n)
+        if k == 'bin' and e[1] == '[]':
+            base = e[2]
+            m = re.fullmatch(r'%s->(shape|strides)' % re.escape(self.buf), base[1]) if base[0] == 'id' else None
+            idx = self._val(e[3])
+            if not m or not idx.is_const():
+                raise SymGiveUp('subscript %s' % P.show(e))
+            return Poly.sym('%s%d' % (m.group(1), idx.value()))
+        if k == 'un' and e[1] == '-':
+            return -self._val(e[2])
+        if k == 'bin' and e[1] in ('+', '-', '*'):
+            a, b = self._val(e[2]), self._val(e[3])
+            return a + b if e[1] == '+' else a - b if e[1] == '-' else a * b
+        if k == 'bin' and e[1] == '&':
+            a, b = self._val(e[2]), self._val(e[3])
+            if a.is_const() and b.is_const():
+                return Poly.const(a.value() & b.value())
+        raise SymGiveUp('expression %s' % P.show(e))
+
+    def _cond(self, e):
+        """-> True / False / frozenset of atoms (a conjunction)"""
+        e = P._strip(e)
+        if e[0] == 'bin' and e[1] == '&&':
+            a, b = self._cond(e[2]), self._cond(e[3])
+            if a is False or b is False:
+                return False
+            if a is True:
+                return b
+            if b is True:
+                return a
+            return a | b
+        if e[0] == 'bin' and e[1] in ('==', '!=', '<', '>', '<=', '>='):
+            a, b = self._val(e[2]), self._val(e[3])
+            d = a - b
+            if d.is_const():
+                v = d.value()
+                return {'==': v == 0, '!=': v != 0, '<': v < 0, '>': v > 0, '<=': v <= 0, '>=': v >= 0}[e[1]]
+            if e[1] == '!=':
+                # sign-normalise
+                key = d.key()
+                nk = (-d).key()
+                return frozenset([('ne', d if key <= nk else -d)])
+            if e[1] in ('>', '<') and len(d.t) <= 2:
+                syms = [k for k in d.t if k]
+                if len(syms) == 1 and len(syms[0]) == 1 and abs(d.t[syms[0]]) == 1:
+                    c = -d.t.get((), 0) * d.t[syms[0]]
+                    op = e[1] if d.t[syms[0]] == 1 else {'>': '<', '<': '>'}[e[1]]
+                    return frozenset([({'>': 'gt', '<': 'lt'}[op], syms[0][0], c)])
+            raise SymGiveUp('comparison %s' % P.show(e))
+        v = self._val(e)
+        if v.is_const():
+            return bool(v.value())
+        raise SymGiveUp('condition %s' % P.show(e))
+
+    def _block(self, stmts):
+        for s in stmts:
+            self.steps += 1
+            if self.steps > 2000:
+                raise SymGiveUp('too many steps')
+            r = self._stmt(s)
+            if r is not None:
+                return r
+        return None
+
+    def _stmt(self, s):
+        if s.kind == 'block':
+            return self._block(s.body)
+        if s.kind in ('label', 'pp'):
+            return None
+        if s.kind == 'if':
+            c = self._cond(P._parse(s.text))
+            if c is True:
+                return self._block(P.as_list(s.body))
+            if c is False:
+                return self._block(P.as_list(s.orelse)) if s.orelse is not None else None
+            # symbolic: the then-branch must be a failure exit; the check goes on under the negation
+            body = P.as_list(s.body)
+            if not P.terminates(body) or s.orelse is not None:
+                raise SymGiveUp('symbolic condition guards something else than a failure exit')
+            self.fails.append(c)
+            return None
+        if s.kind == 'while':
+            n = 0
+            while True:
+                c = self._cond(P._parse(s.text))
+                if c is False:
+                    return None
+                if c is not True:
+                    raise SymGiveUp('loop condition not concrete')
+                r = self._block(P.as_list(s.body))
+                if r is not None:
+                    return r
+                n += 1
+                if n > 16:
+                    raise SymGiveUp('loop does not terminate for the concrete ndim')
+        if s.kind == 'for':
+            parts = P._split_top(s.text, ';')
+            if len(parts) != 3:
+                raise SymGiveUp('for header')
+            self._stmt(P.St('simple', parts[0].strip()))
+            n = 0
+            while True:
+                c = self._cond(P._parse(parts[1]))
+                if c is False:
+                    break
+                if c is not True:
+                    raise SymGiveUp('loop condition not concrete')
+                r = self._block(P.as_list(s.body))
+                if r is not None:
+                    return r
+                self._stmt(P.St('simple', parts[2].strip()))
+                n += 1
+                if n > 16:
+                    raise SymGiveUp('loop does not terminate for the concrete ndim')
+            return None
+        if s.kind == 'simple':
+            t = s.text.strip()
+            if not t or t.startswith('CYTHON_'):
+                return None
+            if re.match(r'(return|goto)\b', t):
+                return t
+            if t.startswith('PyErr_'):
+                return None
+            m = re.fullmatch(r'(\w+)\s*(\+\+|--)|(\+\+|--)\s*(\w+)', t)
+            if m:
+                v = m.group(1) or m.group(4)
+                self.env[v] = self._val(('id', v)) + Poly.const(1 if (m.group(2) or m.group(3)) == '++' else -1)
+                return None
+            d = P.Explorer._declaration(t)
+            if d is not None:
+                for name, rhs in d:
+                    if rhs is not None:
+                        self.env[name] = self._val(P._parse(rhs))
+                return None
+            m = re.fullmatch(r'(\w+)\s*(=|\*=|\+=|-=)\s*(.+)', t, re.S)
+            if m:
+                rhs = self._val(P._parse(m.group(3)))
+                cur = self.env.get(m.group(1))
+                if m.group(2) != '=' and cur is None:
+                    raise SymGiveUp('compound assignment to unknown %s' % m.group(1))
+                self.env[m.group(1)] = rhs if m.group(2) == '=' else cur * rhs if m.group(2) == '*=' else cur + rhs if m.group(2) == '+=' else cur - rhs
+                return None
+            raise SymGiveUp('statement %s' % t[:40])
+        raise SymGiveUp('statement kind %s' % s.kind)
+
+
+def contig_reference(order, ndim):
+    """C / Fortran contiguity (PEP 3118, numpy): dimension d with more than one element has stride itemsize * prod(extents of the faster dimensions)."""
+    out = set()
+    for d in range(ndim):
+        faster = range(d + 1, ndim) if order == 'C' else range(0, d)
+        p = Poly.sym('itemsize')
+        for j in faster:
+            p = p * Poly.sym('shape%d' % j)
+        diff = p - Poly.sym('strides%d' % d)
+        diff = diff if diff.key() <= (-diff).key() else -diff
+        out.add(frozenset([('ne', diff), ('gt', 'shape%d' % d, 1)]))
+    return out
+
+
+def contig_findings(body, params, macros, orders, ndims=(1, 2, 3)):
+    """-> (instances, [(key, msg)], fastest axis per macro)"""
+    chk = StrideChecker(body, params, macros)
+    inst, bad, fastest = [], [], {}
+    for macro, order in sorted(orders.items()):
+        for nd in ndims:
+            try:
+                got = set(chk.run(nd, macros[macro]))
+            except (SymGiveUp, cexpr.ParseError) as e:
+                raise AnalysisError('__pyx_verify_contig: symbolic execution gave up (%s)' % e)
+            want = contig_reference(order, nd)
+            inst.append('%s:ndim=%d' % (macro, nd))
+            if nd == 2:
+                for cond in got:
+                    for a in cond:
+                        if a[0] == 'ne' and set(a[1].t) == {('itemsize',), ('strides0',)}:
+                            fastest[macro] = 'first'
+                        if a[0] == 'ne' and set(a[1].t) == {('itemsize',), ('strides1',)}:
+                            fastest[macro] = 'last'
+            if got != want:
+                miss = want - got
+                extra = got - want
+
+                def fmt(c):
+                    return ' && '.join(sorted('%s != 0' % (a[1],) if a[0] == 'ne' else '%s > %s' % (a[1], a[2]) for a in c))
+                bad.append(('%s:ndim=%d' % (macro, nd),
+                            "under %s a %d-dimensional buffer is %s-contiguous iff every dimension d with more than one element has stride itemsize * (product of the extents of the %s dimensions); "
+                            "__pyx_verify_contig instead rejects on {%s} and lacks {%s}: %s arrays are refused / non-contiguous ones are accepted and indexed with the wrong strides"
+                            % (macro, nd, order, 'following' if order == 'C' else 'preceding', '; '.join(sorted(map(fmt, extra))) or '-', '; '.join(sorted(map(fmt, miss))) or '-',
+                               'C-ordered' if order == 'C' else 'Fortran-ordered')))
+    return inst, bad, fastest
+
+
+POSITIVE_CONTIG = """{
+    int i;
+    if (flag & IS_F) { Py_ssize_t stride = 1; for (i = ndim - 1; i > -1; i--) { if (unlikely(stride * buf->itemsize != buf->strides[i] && buf->shape[i] > 1)) { goto fail; } stride = stride * buf->shape[i]; } }
+    else if (flag & IS_C) { Py_ssize_t stride = 1; for (i = ndim - 1; i > -1; i--) { if (unlikely(stride * buf->itemsize != buf->strides[i] && buf->shape[i] > 1)) { goto fail; } } }
+    return 1;
+fail:
+    return 0;
+}"""
+
+
+def _macro_values(ctx, names_re):
+    out = {}
+    for m in re.finditer(r'#\s*define\s+(%s)\s+(\d+)\b' % names_re, ctx.read(MVC_C)):
+        out[m.group(1)] = int(m.group(2))
+    return out
+
+
+def rule_contig(ctx, func):
+    r = Rule('C17-CONTIG', '__pyx_verify_contig executed symbolically (ndim 1..3, symbolic extents / strides / itemsize) demands exactly the strides that define C / Fortran '
+             'contiguity under __Pyx_IS_C_CONTIG / __Pyx_IS_F_CONTIG', floor=6)
+    d = func(ctx, '__pyx_verify_contig')
+    macros = _macro_values(ctx, r'__Pyx_IS_[CF]_CONTIG')
+    if set(macros) != {'__Pyx_IS_C_CONTIG', '__Pyx_IS_F_CONTIG'}:
+        raise AnalysisError('__Pyx_IS_C_CONTIG / __Pyx_IS_F_CONTIG not defined in MemoryView_C.c')
+    names, types = d.param_names(), d.param_types()
+    buf = [n for n, t in zip(names, types) if 'Py_buffer' in t]
+    ints = [n for n, t in zip(names, types) if re.fullmatch(r'int', t.strip())]
+    if len(buf) != 1 or len(ints) != 2:
+        raise AnalysisError('__pyx_verify_contig: signature (Py_buffer*, int ndim, int flag) not recognised')
+    nd = [n for n in ints if 'dim' in n]
+    if len(nd) != 1:
+        # the ndim parameter is the one the loop headers read
+        nd = [n for n in ints if re.search(r'for\s*\([^;]*;[^;]*\b%s\b' % re.escape(n), d.body) or re.search(r'for\s*\([^;]*\b%s\b' % re.escape(n), d.body)]
+    flag = [n for n in ints if n not in nd]
+    if len(nd) != 1 or len(flag) != 1:
+        raise AnalysisError('__pyx_verify_contig: cannot tell the ndim parameter from the flag parameter')
+    inst, bad, fastest = contig_findings(d.body, (buf[0], nd[0], flag[0]), macros, {'__Pyx_IS_C_CONTIG': 'C', '__Pyx_IS_F_CONTIG': 'F'})
+    for k in inst:
+        r.inst('__pyx_verify_contig:%s' % k, sample='__pyx_verify_contig under %s' % k)
+    for k, msg in bad:
+        r.violate('__pyx_verify_contig:%s' % k, MVC_C, d.line, msg)
+    rule_contig.fastest = fastest
+    _i, pcbad, _f = contig_findings(POSITIVE_CONTIG, ('buf', 'ndim', 'flag'), {'IS_C': 1, 'IS_F': 2}, {'IS_C': 'C', 'IS_F': 'F'})
+    r.positive_control({k for k, _ in pcbad} == {'IS_F:ndim=2', 'IS_F:ndim=3', 'IS_C:ndim=2', 'IS_C:ndim=3'}, 'descending loop under the Fortran flag; stride never accumulated under the C flag')
+    return r
+
+
+# CPython C-API, "Buffer Protocol / contiguity requests": PyBUF_C_CONTIGUOUS = last dimension varies the fastest, PyBUF_F_CONTIGUOUS = first dimension
+PYBUF_FASTEST = {'PyBUF_C_CONTIGUOUS': 'last', 'PyBUF_F_CONTIGUOUS': 'first'}
+
+
+def _pybuf_in(node):
+    out = set()
+    for c in _ast.walk(node):
+        if isinstance(c, _ast.Constant) and isinstance(c.value, str):
+            out |= set(re.findall(r'PyBUF_[CF]_CONTIGUOUS', c.value))
+    return out
+
+
+def cf_sites(mv_tree, pt_tree, buf_tree):
+    """Facts about which axis is the fastest one at every site that decides on a declared C / Fortran layout."""
+    from ..engine import tables as _t
+    facts = {'spec': {}, 'macro': {}, 'mvflag': {}, 'legacyflag': {}, 'lookup': {}}
+    # (1) MemoryView.is_cf_contig: which axis carries 'contig'
+    fn = _t.find_function(mv_tree, 'is_cf_contig')
+    if fn is None:
+        raise AnalysisError('MemoryView.is_cf_contig vanished')
+    for n in _ast.walk(fn):
+        if not isinstance(n, _ast.If):
+            continue
+        targets = [t.id for s in n.body if isinstance(s, _ast.Assign) and isinstance(s.value, _ast.Constant) and s.value.value is True for t in s.targets if isinstance(t, _ast.Name)]
+        axes = set()
+        for c in _ast.walk(n.test):
+            if isinstance(c, _ast.Compare) and isinstance(c.left, _ast.Subscript) and isinstance(c.ops[0], _ast.Eq):
+                idx = c.left.slice
+                base = c.left.value.id if isinstance(c.left.value, _ast.Name) else None
+                try:
+                    iv = _small_eval(idx, {'len(%s)' % base: 5})
+                except PyGiveUp:
+                    continue
+                if iv == 4:
+                    iv = -1
+                comp = c.comparators[0]
+                if any(isinstance(x, _ast.Constant) and x.value == 'contig' for x in _ast.walk(comp)):
+                    axes.add('last' if iv == -1 else 'first' if iv == 0 else str(iv))
+        for t in targets:
+            if axes:
+                facts['spec'].setdefault(t, set()).update(axes)
+    # (2) attribute -> macro handed to the validator
+    for n in _ast.walk(pt_tree):
+        if isinstance(n, _ast.If) and isinstance(n.test, _ast.Attribute) and n.test.attr in facts['spec']:
+            for s in n.body:
+                if isinstance(s, _ast.Assign) and isinstance(s.value, _ast.Constant) and isinstance(s.value.value, str) and re.fullmatch(r'__Pyx_IS_\w+', s.value.value):
+                    facts['macro'].setdefault(n.test.attr, set()).add(s.value.value)
+    # (4) attribute -> PyBUF request
+    fn = _t.find_function(mv_tree, 'get_buf_flags')
+    if fn is None:
+        raise AnalysisError('MemoryView.get_buf_flags vanished')
+    for n in _ast.walk(fn):
+        if isinstance(n, _ast.If) and isinstance(n.test, _ast.Name) and n.test.id in facts['spec']:
+            for s in n.body:
+                if isinstance(s, _ast.Return) and s.value is not None:
+                    v = s.value
+                    if isinstance(v, _ast.Name):
+                        v = _t.module_assign(mv_tree, v.id) or v
+                    for f in _pybuf_in(v):
+                        facts['mvflag'].setdefault(n.test.id, set()).add(f)
+    # (5) legacy mode -> PyBUF request ; (6) legacy mode -> lookup generator
+    gens = {}
+    for n in _ast.walk(buf_tree):
+        if isinstance(n, _ast.If) and isinstance(n.test, _ast.Compare) and len(n.test.ops) == 1 and isinstance(n.test.ops[0], _ast.Eq) \
+                and isinstance(n.test.comparators[0], _ast.Constant) and isinstance(n.test.comparators[0].value, str) \
+                and isinstance(n.test.left, (_ast.Name, _ast.Attribute)) and (getattr(n.test.left, 'id', None) == 'mode' or getattr(n.test.left, 'attr', None) == 'mode'):
+            mode = n.test.comparators[0].value
+            for s in n.body:
+                if isinstance(s, _ast.Assign) and isinstance(s.value, _ast.Name) and s.value.id.startswith('buf_lookup_'):
+                    gens.setdefault(mode, set()).add(s.value.id)
+    _fn, reqs = legacy_requests(buf_tree)
+    for mode, txt in reqs.items():
+        for f in set(re.findall(r'PyBUF_[CF]_CONTIGUOUS', txt)):
+            facts['legacyflag'].setdefault(mode, set()).add(f)
+    for mode, names in gens.items():
+        for name in names:
+            g = _t.find_function(buf_tree, name)
+            if g is None:
+                raise AnalysisError('Buffer.%s vanished' % name)
+            ax = _lookup_axis(g)
+            if ax is not None:
+                facts['lookup'].setdefault(mode, set()).add(ax)
+    return facts
+
+
+def _small_eval(node, env):
+    """integer value of a tiny arithmetic expression over names bound in env (for range bounds / index expressions of code generators)"""
+    if isinstance(node, _ast.Constant) and isinstance(node.value, int):
+        return node.value
+    if isinstance(node, _ast.Name) and node.id in env:
+        return env[node.id]
+    if isinstance(node, _ast.UnaryOp) and isinstance(node.op, _ast.USub):
+        return -_small_eval(node.operand, env)
+    if isinstance(node, _ast.BinOp) and isinstance(node.op, (_ast.Add, _ast.Sub, _ast.Mult)):
+        a, b = _small_eval(node.left, env), _small_eval(node.right, env)
+        return a + b if isinstance(node.op, _ast.Add) else a - b if isinstance(node.op, _ast.Sub) else a * b
+    if isinstance(node, _ast.Call) and isinstance(node.func, _ast.Name) and node.func.id == 'len' and len(node.args) == 1 and isinstance(node.args[0], _ast.Name) \
+            and ('len(%s)' % node.args[0].id) in env:
+        return env['len(%s)' % node.args[0].id]
+    raise PyGiveUp(_ast.unparse(node))
+
+
+def _lookup_axis(fn):
+    """a buf_lookup_*_code generator that leaves one index without its stride: which one?  'last' / 'first' / 'conflict...' / None (all indices strided).
+    Range bounds and the plain index are evaluated for nd = 3 and nd = 4."""
+    nd = [a.arg for a in fn.args.args][-1] if fn.args.args else 'nd'
+    answers = set()
+    for ndv in (3, 4):
+        env = {nd: ndv}
+        skipped, plain = set(), set()
+        for n in _ast.walk(fn):
+            # " + ".join(["i%d * s%d" % (i, i) for i in range(...)])
+            if isinstance(n, (_ast.ListComp, _ast.GeneratorExp)) and any(isinstance(c, _ast.Constant) and isinstance(c.value, str) and '*' in c.value for c in _ast.walk(n.elt)):
+                it = n.generators[0].iter
+                if isinstance(it, _ast.Call) and isinstance(it.func, _ast.Name) and it.func.id == 'range':
+                    try:
+                        idx = set(range(*[_small_eval(x, env) for x in it.args]))
+                    except (PyGiveUp, TypeError):
+                        return 'conflict(range %s not understood)' % _ast.unparse(it)
+                    miss = set(range(ndv)) - idx
+                    skipped.add('none' if not miss else 'last' if miss == {ndv - 1} else 'first' if miss == {0} else 'other%s' % sorted(miss))
+            # "... + i%d)" % (..., <index>)
+            if isinstance(n, _ast.BinOp) and isinstance(n.op, _ast.Mod) and isinstance(n.left, _ast.Constant) and isinstance(n.left.value, str) \
+                    and re.search(r'\+\s*i%d\s*\)\s*$', n.left.value) and isinstance(n.right, _ast.Tuple):
+                try:
+                    v = _small_eval(n.right.elts[-1], env)
+                except PyGiveUp:
+                    return 'conflict(index %s not understood)' % _ast.unparse(n.right.elts[-1])
+                plain.add('last' if v == ndv - 1 else 'first' if v == 0 else 'other[%d]' % v)
+        if not plain and skipped <= {'none'}:
+            answers.add(None)
+        elif plain == skipped and len(plain) == 1:
+            answers.add(next(iter(plain)))
+        else:
+            answers.add('conflict(%s vs %s)' % (sorted(skipped), sorted(plain)))
+    return answers.pop() if len(answers) == 1 else 'conflict(%s)' % sorted(map(str, answers))
+
+
+def cf_problems(facts, fastest):
+    """-> (instances, [(key, msg)])"""
+    inst, bad = [], []
+    for attr, axes in sorted(facts['spec'].items()):
+        inst.append('memview:%s' % attr)
+        views = {'axis declared ::1 in MemoryView.is_cf_contig': axes}
+        macros = facts['macro'].get(attr, set())
+        if len(macros) != 1:
+            bad.append(('memview:%s:macro' % attr, 'the contiguity flag passed to the validator for %s is not a single macro (%s)' % (attr, sorted(macros))))
+            continue
+        macro = next(iter(macros))
+        if macro not in fastest:
+            bad.append(('memview:%s:macro' % attr, '%s passes %s to __Pyx_ValidateAndInit_memviewslice, which __pyx_verify_contig does not test for' % (attr, macro)))
+            continue
+        views['stride == itemsize demanded by __pyx_verify_contig under %s' % macro] = {fastest[macro]}
+        flags = facts['mvflag'].get(attr, set())
+        if len(flags) != 1:
+            bad.append(('memview:%s:pybuf' % attr, 'MemoryView.get_buf_flags requests %s for %s' % (sorted(flags), attr)))
+            continue
+        flag = next(iter(flags))
+        views['fastest axis of the %s request made to the exporter' % flag] = {PYBUF_FASTEST[flag]}
+        if len({frozenset(v) for v in views.values()}) != 1:
+            bad.append(('memview:%s' % attr, 'the sites that handle a view declared %s disagree about the fastest-varying axis: %s: e.g. int[:, ::1] is validated / requested as the other '
+                        'layout, so C-ordered arrays are refused and Fortran-ordered ones are indexed as if they were C-ordered' % (attr, '; '.join('%s = %s' % (k, '/'.join(sorted(v))) for k, v in views.items()))))
+    for mode, flags in sorted(facts['legacyflag'].items()):
+        inst.append('legacy:mode=%s' % mode)
+        if len(flags) != 1:
+            bad.append(('legacy:mode=%s' % mode, 'Buffer.py requests %s for mode=%r' % (sorted(flags), mode)))
+            continue
+        flag = next(iter(flags))
+        look = facts['lookup'].get(mode, set())
+        if len(look) != 1 or next(iter(look)) != PYBUF_FASTEST[flag]:
+            bad.append(('legacy:mode=%s' % mode, "for buffers declared mode=%r Buffer.get_flags asks the exporter for %s (fastest axis: %s) but the element lookup generated for that mode leaves the %s index "
+                        "without its stride: elements of 2-d buffers are read from the wrong address" % (mode, flag, PYBUF_FASTEST[flag], '/'.join(sorted(look)) or 'no')))
+    return inst, bad
+
+
+def rule_cf(ctx, fastest):
+    r = Rule('C17-CF', 'every site that acts on a declared C / Fortran layout designates the same fastest-varying axis: the axis declared ::1 (MemoryView.is_cf_contig), the macro handed to and '
+             'tested by __pyx_verify_contig, the PyBUF_*_CONTIGUOUS request (memoryviews and legacy buffers) and the unstrided index of the generated legacy lookup', floor=4)
+    facts = cf_sites(ctx.parse('Cython/Compiler/MemoryView.py'), ctx.parse('Cython/Compiler/PyrexTypes.py'), ctx.parse('Cython/Compiler/Buffer.py'))
+    if set(facts['spec']) != {'is_c_contig', 'is_f_contig'} or set(facts['legacyflag']) != {'c', 'fortran'}:
+        raise AnalysisError('layout sites not found: spec=%s legacy=%s' % (sorted(facts['spec']), sorted(facts['legacyflag'])))
+    inst, bad = cf_problems(facts, fastest)
+    for k in inst:
+        r.inst(k, sample=k)
+    from ..engine import tables as _t
+    for k, msg in bad:
+        if k.startswith('legacy'):
+            fn = _t.find_function(ctx.parse('Cython/Compiler/Buffer.py'), 'get_flags')
+            r.violate(k, 'Cython/Compiler/Buffer.py', fn.lineno if fn else 0, msg)
+        else:
+            fn = _t.find_function(ctx.parse('Cython/Compiler/MemoryView.py'), 'is_cf_contig')
+            r.violate(k, 'Cython/Compiler/MemoryView.py', fn.lineno if fn else 0, msg)
+    pf = {'spec': {'is_c': {'last'}}, 'macro': {'is_c': {'M_F'}}, 'mvflag': {'is_c': {'PyBUF_C_CONTIGUOUS'}}, 'legacyflag': {'c': {'PyBUF_F_CONTIGUOUS'}}, 'lookup': {'c': {'last'}}}
+    _i, pcbad = cf_problems(pf, {'M_F': 'first', 'M_C': 'last'})
+    r.positive_control({k for k, _ in pcbad} == {'memview:is_c', 'legacy:mode=c'}, 'C-contiguous view validated with the Fortran macro; mode c requesting F-contiguous data')
+    return r
+
+
+# ---------------------------------------------------------------------------------------------------------------- C17-AXIS
+def _decide(d, env, consts):
+    """run one validator on a fully concrete abstract input -> its constant return value (AnalysisError when a condition stays undecided)"""
+    st = P.PState()
+    for k, v in env.items():
+        st.env[k] = ('const', v)
+    try:
+        paths = P.Explorer(P.parse_body(d.body), consts=consts).function(st)
+    except P.Unmodelled as e:
+        raise AnalysisError('%s: %s' % (d.name, e))
+    outs = set()
+    for s1, ex in paths:
+        undecided = [t for t, _, _ in s1.facts if not t.startswith('switch(')]
+        if undecided:
+            raise AnalysisError('%s: condition `%s` is not decided by (spec, strides, suboffsets, shape, dim): decision table cannot be built' % (d.name, undecided[0]))
+        v = _ret_const(ex, s1)
+        if v is None:
+            raise AnalysisError('%s: non-constant return' % d.name)
+        outs.add(v)
+    if len(outs) != 1:
+        raise AnalysisError('%s: not deterministic on a concrete input' % d.name)
+    return outs.pop()
+
+
+def _axis_params(d):
+    names, types = d.param_names(), d.param_types()
+    buf = [n for n, t in zip(names, types) if 'Py_buffer' in t]
+    ints = [n for n, t in zip(names, types) if re.fullmatch(r'int', t.strip())]
+    spec = [n for n in ints if re.search(r'\b%s\s*&' % re.escape(n), d.body)]
+    dim = [n for n in ints if re.search(r'\[\s*%s\s*\]' % re.escape(n), d.body)]
+    rest = [n for n in ints if n not in spec and n not in dim]
+    if len(buf) != 1 or len(spec) != 1 or len(dim) != 1:
+        raise AnalysisError('%s: parameters (buffer, dim, spec) not recognised' % d.name)
+    return buf[0], dim[0], spec[0], (rest[0] if rest else None)
+
+
+def suboffset_table(d, macros):
+    buf, dim, spec, nd = _axis_params(d)
+    rows = {}
+    for access in ('DIRECT', 'PTR', 'FULL'):
+        for packing in ('CONTIG', 'STRIDED', 'FOLLOW'):
+            for sub in ('NULL', -1, 0, 1):
+                env = {spec: macros['__Pyx_MEMVIEW_' + access] | macros['__Pyx_MEMVIEW_' + packing], dim: 0, '%s->suboffsets' % buf: 0 if sub == 'NULL' else 1}
+                if nd:
+                    env[nd] = 2
+                if sub != 'NULL':
+                    env['%s->suboffsets[%s]' % (buf, dim)] = sub
+                rows[(access, packing, sub)] = _decide(d, env, macros)
+    return rows
+
+
+def suboffset_problems(rows):
+    """PEP 3118: a negative suboffset (or suboffsets == NULL) means the dimension is not dereferenced; a value >= 0 means it is."""
+    bad = {}
+    for (access, packing, sub), ok in sorted(rows.items(), key=str):
+        indirect = sub != 'NULL' and sub >= 0
+        want = {'DIRECT': not indirect, 'PTR': indirect, 'FULL': True}[access]
+        if bool(ok) != want:
+            what = 'suboffsets == NULL' if sub == 'NULL' else 'suboffset %d' % sub
+            if access == 'DIRECT':
+                msg = ("a dimension declared for direct access %s a buffer dimension with %s; PEP 3118: suboffset >= 0 means the stride step yields a pointer that must be dereferenced, < 0 / NULL means "
+                       "plain data: %s" % ('ACCEPTS' if ok else 'REFUSES', what, 'pointers are read as element data' if ok else 'ordinary buffers are refused'))
+            elif access == 'PTR':
+                msg = "a dimension declared indirect (ptr) %s a buffer dimension with %s: %s" % ('ACCEPTS' if ok else 'REFUSES', what, 'element data is dereferenced as a pointer' if ok else 'indirect buffers are refused')
+            else:
+                msg = "a dimension declared `full` (direct or indirect decided at run time) REFUSES %s" % what
+            bad.setdefault('%s:%s' % (access.lower(), 'indirect' if indirect else 'plain'), msg)
+    return sorted(bad.items())
+
+
+def stride_table(d, macros):
+    buf, dim, spec, nd = _axis_params(d)
+    rows = {}
+    for isz in (4, 16):
+        consts = dict(macros)
+        consts['sizeof(void*)'] = 8
+        for packing in ('CONTIG', 'FOLLOW'):
+            for rel in ('-2I', '-I', '-I+1', '-1', '0', '1', 'I-1', 'I', 'I+1', '2I'):
+                stride = {'-2I': -2 * isz, '-I': -isz, '-I+1': -isz + 1, '-1': -1, '0': 0, '1': 1, 'I-1': isz - 1, 'I': isz, 'I+1': isz + 1, '2I': 2 * isz}[rel]
+                env = {spec: macros['__Pyx_MEMVIEW_DIRECT'] | macros['__Pyx_MEMVIEW_' + packing], dim: 1, '%s->shape[%s]' % (buf, dim): 2,
+                       '%s->strides' % buf: 1, '%s->strides[%s]' % (buf, dim): stride, '%s->itemsize' % buf: isz, '%s->suboffsets' % buf: 0}
+                if nd:
+                    env[nd] = 2
+                rows[(packing, 'strides', rel, isz)] = _decide(d, env, consts)
+        # strides == NULL: the buffer is C-contiguous by definition (PEP 3118)
+        for dimv in (0, 1):
+            env = {spec: macros['__Pyx_MEMVIEW_DIRECT'] | macros['__Pyx_MEMVIEW_CONTIG'], dim: dimv, '%s->shape[%s]' % (buf, dim): 2,
+                   '%s->strides' % buf: 0, '%s->itemsize' % buf: isz, '%s->suboffsets' % buf: 0}
+            if nd:
+                env[nd] = 2
+            rows[('CONTIG', 'nostrides', 'last' if dimv == 1 else 'first', isz)] = _decide(d, env, consts)
+    return rows
+
+
+def stride_problems(rows):
+    bad = {}
+    for (packing, kind, rel, isz), ok in sorted(rows.items(), key=str):
+        if kind == 'strides' and packing == 'CONTIG':
+            want = rel == 'I'
+            if bool(ok) != want:
+                bad.setdefault('contig:%s' % ('accepts-noncontiguous' if ok else 'refuses-contiguous'),
+                               "a directly accessed dimension declared contiguous (::1) %s stride %s (I = itemsize = %d, extent 2): the elements of a contiguous dimension are exactly itemsize apart; "
+                               "%s" % ('ACCEPTS' if ok else 'REFUSES', rel, isz, 'a step-2 slice a[::2] is acquired and read with step 1' if ok else 'contiguous arrays are refused'))
+        elif kind == 'strides' and packing == 'FOLLOW':
+            if ok and rel in ('-I+1', '-1', '0', '1', 'I-1'):
+                bad.setdefault('follow:overlap', "a dimension that follows a contiguous one is accepted with |stride| < itemsize (stride %s, itemsize %d): elements overlap" % (rel, isz))
+            if not ok and rel in ('I', '2I', '-I', '-2I'):
+                bad.setdefault('follow:refused', "a dimension that follows a contiguous one is refused with stride %s (itemsize %d)" % (rel, isz))
+        elif kind == 'nostrides':
+            want = rel == 'last'
+            if bool(ok) != want:
+                bad.setdefault('contig:nostrides:%s' % rel, "a buffer without strides is C-contiguous (PEP 3118): a view whose %s dimension is declared ::1 must be %s" % (rel, 'accepted' if want else 'refused'))
+    return sorted(bad.items())
+
+
+def validator_use(entry, validators):
+    """every validator of the section is consulted on a successful path of the entry point, and a failing answer never leads to success"""
+    paths = _paths(entry.body, entry.name)
+    bad = []
+    succ = [(st, ex) for st, ex in paths if _ret_const(ex, st) == 0]
+    for v in validators:
+        called = False
+        for st, ex in succ:
+            for t, truth, _ in st.facts:
+                if t.startswith(v.name + '('):
+                    called = True
+                    if not truth:
+                        bad.append((v.name + ':ignored', "%s returns success on a path where %s reported a failure: the validator's answer is ignored" % (entry.name, v.name)))
+            if any(ev[0] == 'call' and ev[1] == v.name for ev in st.events) and not any(t.startswith(v.name + '(') for t, _, _ in st.facts):
+                bad.append((v.name + ':unchecked', "%s calls %s without testing its result" % (entry.name, v.name)))
+                called = True
+        if not called:
+            bad.append((v.name + ':unused', "%s never consults %s on a successful path: what it validates (%s) is not checked at acquisition" % (
+                entry.name, v.name, 'per-axis suboffsets: indirect buffers are accepted by direct views' if 'suboffset' in v.name else 'per-axis strides' if 'stride' in v.name else 'contiguity')))
+    seen, out = set(), []
+    for k, m in bad:
+        if k not in seen:
+            seen.add(k)
+            out.append((k, m))
+    return out
+
+
+def rule_axis(ctx, func):
+    r = Rule('C17-AXIS', 'per-axis validation of a memoryview acquisition: decision tables of __pyx_check_suboffsets (access mode x suboffset sign, PEP 3118) and of the contiguous / follow rows of '
+             '__pyx_check_strides (stride relative to itemsize), and every validator of the section is consulted with its failure honoured', floor=70)
+    macros = _macro_values(ctx, r'__Pyx_MEMVIEW_\w+')
+    need = {'__Pyx_MEMVIEW_' + k for k in ('DIRECT', 'PTR', 'FULL', 'CONTIG', 'STRIDED', 'FOLLOW')}
+    if not need <= set(macros):
+        raise AnalysisError('__Pyx_MEMVIEW_* macros missing: %s' % sorted(need - set(macros)))
+    vals = [macros[k] for k in need]
+    if any(v & (v - 1) for v in vals) or len(set(vals)) != len(vals):
+        r.violate('MemoryView_C.c:__Pyx_MEMVIEW_*:bits', MVC_C, 0, 'the axis-spec macros are not distinct single bits (%s): access and packing of an axis cannot be told apart' % sorted(macros.items()))
+        return r
+    sub = func(ctx, '__pyx_check_suboffsets')
+    rows = suboffset_table(sub, macros)
+    for k, v in rows.items():
+        r.inst('__pyx_check_suboffsets:%s:%s:%s' % k, sample='access %s packing %s suboffset %s -> %s' % (k + ('ok' if v else 'fail',)))
+    for k, msg in suboffset_problems(rows):
+        r.violate('__pyx_check_suboffsets:%s' % k, MVC_C, sub.line, '__pyx_check_suboffsets: ' + msg)
+    stf = func(ctx, '__pyx_check_strides')
+    srows = stride_table(stf, macros)
+    for k, v in srows.items():
+        r.inst('__pyx_check_strides:%s:%s:%s:%d' % k, sample='packing %s %s %s itemsize %d -> %s' % (k + ('ok' if v else 'fail',)))
+    for k, msg in stride_problems(srows):
+        r.violate('__pyx_check_strides:%s' % k, MVC_C, stf.line, '__pyx_check_strides: ' + msg)
+    entry = func(ctx, '__Pyx_ValidateAndInit_memviewslice')
+    validators = [d for d in _section_of(ctx, entry.file, entry.section.name) if d.name != entry.name and any('Py_buffer' in t for t in d.param_types())]
+    if len(validators) < 3:
+        raise AnalysisError('only %d validators found next to %s' % (len(validators), entry.name))
+    for v in validators:
+        r.inst('%s:consults:%s' % (entry.name, v.name), sample='%s consults %s' % (entry.name, v.name))
+    for k, msg in validator_use(entry, validators):
+        r.violate('%s:%s' % (entry.name, k), MVC_C, entry.line, msg)
+
+    class _D:
+        name = 'pc'
+        body = "{ if (spec & 1) { if (unlikely(buf->suboffsets && buf->suboffsets[dim] > 0)) goto fail; } if (spec & 2) { if (unlikely(!buf->suboffsets || (buf->suboffsets[dim] < 0))) goto fail; } return 1; fail: return 0; }"
+
+        @staticmethod
+        def param_names():
+            return ['buf', 'dim', 'ndim', 'spec']
+
+        @staticmethod
+        def param_types():
+            return ['Py_buffer *', 'int', 'int', 'int']
+    pm = {'__Pyx_MEMVIEW_DIRECT': 1, '__Pyx_MEMVIEW_PTR': 2, '__Pyx_MEMVIEW_FULL': 4, '__Pyx_MEMVIEW_CONTIG': 8, '__Pyx_MEMVIEW_STRIDED': 16, '__Pyx_MEMVIEW_FOLLOW': 32}
+    r.positive_control([k for k, _ in suboffset_problems(suboffset_table(_D, pm))] == ['direct:indirect'], 'suboffset 0 accepted for direct access')
+    return r
+
+
+# ---------------------------------------------------------------------------------------------------------------- C17-DIGITS
+DIGITS = frozenset(range(ord('0'), ord('9') + 1))
+NONDIGITS = frozenset(range(0, 256)) - DIGITS
+
+
+class NonUniform(Exception):
+    def __init__(self, cond, klass, odd):
+        self.cond, self.klass, self.odd = cond, klass, odd
+
+
+class DigitExec:
+    """Symbolic execution of a leaf number parser `int f(const char **ts)` on the input  d0 d1 ... d(n-1) X  where every d is an arbitrary decimal digit and X an
+    arbitrary non-digit byte.  A condition on an input character is evaluated for EVERY member of the character's class (complete enumeration of the byte domain);
+    if the members disagree the classes are not respected and NonUniform is raised.  Arithmetic is carried as polynomials in the character symbols."""
+
+    def __init__(self, body, param):
+        self.param = param
+        txt = re.sub(r'\*\s*%s\b' % re.escape(param), '__p', body)
+        self.stmts = P.parse_body(txt)
+
+    def run(self, n):
+        self.n = n
+        self.env = {'__p': ('pos', 0)}
+        self.steps = 0
+        r = self._block(self.stmts)
+        if r is None:
+            raise SymGiveUp('function falls off its end')
+        return r, self.env['__p']
+
+    def _sym(self, pos):
+        if pos > self.n:
+            raise SymGiveUp('the parser reads past the first non-digit')
+        return Poly.sym('c%d' % pos)
+
+    def _prep(self, text):
+        """`*t++` -> placeholder read + deferred increment; returns (text, [vars to increment])"""
+        incs = []
+
+        def rep(m):
+            incs.append(m.group(1))
+            return '__rd_%s' % m.group(1)
+        text = re.sub(r'\*\s*([A-Za-z_]\w*)\s*\+\+', rep, text)
+        if re.search(r'\+\+|--', text):
+            raise SymGiveUp('increment form in %r' % text)
+        return text, incs
+
+    def _val(self, e):
+        k = e[0]
+        if k in ('num', 'char'):
+            return Poly.const(e[1])
+        if k == 'cast':
+            return self._val(e[2])
+        if k == 'call' and e[1] in ('likely', 'unlikely') and len(e[2]) == 1:
+            return self._val(e[2][0])
+        if k == 'id':
+            if e[1].startswith('__rd_'):
+                v = self.env.get(e[1][5:])
+                if not (isinstance(v, tuple) and v[0] == 'pos'):
+                    raise SymGiveUp('dereference of %s' % e[1][5:])
+                return self._sym(v[1])
+            v = self.env.get(e[1])
+            if isinstance(v, Poly):
+                return v
+            raise SymGiveUp('value of %s' % e[1])
+        if k == 'un' and e[1] == '*' and e[2][0] == 'id':
+            v = self.env.get(e[2][1])
+            if isinstance(v, tuple) and v[0] == 'pos':
+                return self._sym(v[1])
+            raise SymGiveUp('dereference of %s' % e[2][1])
+        if k == 'un' and e[1] == '-':
+            return -self._val(e[2])
+        if k == 'bin' and e[1] in ('+', '-', '*'):
+            a, b = self._val(e[2]), self._val(e[3])
+            return a + b if e[1] == '+' else a - b if e[1] == '-' else a * b
+        raise SymGiveUp('expression %s' % P.show(e))
+
+    def _truth(self, e, bind):
+        """concrete truth of a condition once every character symbol is bound"""
+        e = P._strip(e)
+        if e[0] == 'bin' and e[1] in ('&&', '||'):
+            a = self._truth(e[2], bind)
+            if (e[1] == '&&') != a:
+                return a
+            return self._truth(e[3], bind)
+        if e[0] == 'un' and e[1] == '!':
+            return not self._truth(e[2], bind)
+        if e[0] == 'bin' and e[1] in ('==', '!=', '<', '>', '<=', '>='):
+            d = self._val(e[2]) - self._val(e[3])
+            op = e[1]
+        else:
+            d = self._val(e)
+            op = '!='
+        v = 0
+        for mono, coef in d.t.items():
+            term = coef
+            for sname in mono:
+                if sname not in bind:
+                    raise SymGiveUp('unbound symbol %s' % sname)
+                term *= bind[sname]
+            v += term
+        return {'==': v == 0, '!=': v != 0, '<': v < 0, '>': v > 0, '<=': v <= 0, '>=': v >= 0}[op]
+
+    def _symbols(self, e, out):
+        e = P._strip(e)
+        if e[0] == 'bin' and e[1] in ('&&', '||', '==', '!=', '<', '>', '<=', '>='):
+            self._symbols(e[2], out)
+            self._symbols(e[3], out)
+        elif e[0] == 'un' and e[1] == '!':
+            self._symbols(e[2], out)
+        else:
+            for mono in self._val(e).t:
+                out.update(mono)
+
+    def _cond(self, e, text):
+        syms = set()
+        self._symbols(e, syms)
+        if not syms:
+            return self._truth(e, {})
+        if len(syms) != 1:
+            raise SymGiveUp('condition on more than one input character: %s' % text)
+        s = next(iter(syms))
+        pos = int(s[1:])
+        klass = DIGITS if pos < self.n else NONDIGITS
+        res = {ch: self._truth(e, {s: ch}) for ch in klass}
+        if len(set(res.values())) != 1:
+            major = sum(res.values()) * 2 > len(res)
+            raise NonUniform(text, 'digit' if pos < self.n else 'non-digit', sorted(ch for ch, t in res.items() if t != major))
+        return next(iter(res.values()))
+
+    def _apply_incs(self, incs):
+        for v in incs:
+            cur = self.env.get(v)
+            if not (isinstance(cur, tuple) and cur[0] == 'pos'):
+                raise SymGiveUp('increment of %s' % v)
+            self.env[v] = ('pos', cur[1] + 1)
+
+    def _assign(self, name, op, rhs):
+        rhs, incs = self._prep(rhs)
+        e = P._parse(rhs)
+        s = P._strip(e)
+        if op == '=' and s[0] == 'id' and isinstance(self.env.get(s[1]), tuple):
+            self.env[name] = self.env[s[1]]
+        else:
+            v = self._val(e)
+            cur = self.env.get(name)
+            if op != '=' and not isinstance(cur, Poly):
+                raise SymGiveUp('compound assignment to %s' % name)
+            self.env[name] = v if op == '=' else cur * v if op == '*=' else cur + v if op == '+=' else cur - v
+        self._apply_incs(incs)
+
+    def _block(self, stmts):
+        for s in stmts:
+            self.steps += 1
+            if self.steps > 500:
+                raise SymGiveUp('too many steps')
+            r = self._stmt(s)
+            if r is not None:
+                return r
+        return None
+
+    def _stmt(self, s):
+        if s.kind == 'block':
+            return self._block(s.body)
+        if s.kind in ('label', 'pp'):
+            return None
+        if s.kind == 'if':
+            t, incs = self._prep(s.text)
+            c = self._cond(P._parse(t), s.text)
+            self._apply_incs(incs)
+            br = s.body if c else s.orelse
+            return self._block(P.as_list(br)) if br is not None else None
+        if s.kind == 'while':
+            k = 0
+            while True:
+                t, incs = self._prep(s.text)
+                c = self._cond(P._parse(t), s.text)
+                self._apply_incs(incs)
+                if not c:
+                    return None
+                r = self._block(P.as_list(s.body))
+                if r is not None:
+                    return r
+                k += 1
+                if k > self.n + 2:
+                    raise SymGiveUp('loop does not stop at the non-digit')
+        if s.kind == 'simple':
+            t = s.text.strip()
+            if not t:
+                return None
+            m = re.match(r'return\b\s*(.*)$', t, re.S)
+            if m:
+                txt, incs = self._prep(m.group(1))
+                v = self._val(P._parse(txt))
+                self._apply_incs(incs)
+                return ('ret', v)
+            m = re.fullmatch(r'([A-Za-z_]\w*)\s*\+\+|\+\+\s*([A-Za-z_]\w*)', t)
+            if m:
+                self._apply_incs([m.group(1) or m.group(2)])
+                return None
+            d = P.Explorer._declaration(t)
+            if d is not None:
+                for name, rhs in d:
+                    if rhs is not None:
+                        self._assign(name, '=', rhs)
+                return None
+            m = re.fullmatch(r'([A-Za-z_]\w*)\s*(=|\*=|\+=|-=)\s*(.+)', t, re.S)
+            if m:
+                self._assign(m.group(1), m.group(2), m.group(3))
+                return None
+            raise SymGiveUp('statement %s' % t[:40])
+        raise SymGiveUp('statement kind %s' % s.kind)
+
+
+def decimal_reference(n):
+    """value of the decimal numeral c0 c1 ... c(n-1) as a polynomial in the character codes"""
+    p = Poly.const(0)
+    for i in range(n):
+        p = p * Poly.const(10) + (Poly.sym('c%d' % i) - Poly.const(ord('0')))
+    return p
+
+
+def digit_findings(body, param):
+    """-> [(key, msg)]"""
+    ex = DigitExec(body, param)
+    bad = []
+    for n in (0, 1, 2, 3):
+        try:
+            (kind, val), pos = ex.run(n)
+        except NonUniform as e:
+            bad.append(('digit-class', "the test `%s` treats the %s byte(s) %s differently from the other %ss: a repeat count / array extent is a run of the decimal digits 0-9 "
+                        "(struct module grammar), so e.g. '19i' or '(9)i' is mis-read" % (e.cond, e.klass, ', '.join(repr(chr(c)) if 32 <= c < 127 else str(c) for c in e.odd[:4]), e.klass)))
+            break
+        if n == 0:
+            if not (val.is_const() and val.value() < 0) or pos != ('pos', 0):
+                bad.append(('no-digit', "for an input that does not start with a digit the parser returns %s and moves the cursor to %s instead of returning a negative value in place" % (val, pos)))
+            continue
+        want = decimal_reference(n)
+        if val != want:
+            bad.append(('value', "for the %d-digit input c0..c%d the parser returns %s; the decimal value is %s: counts / extents with %s digits are mis-read" % (n, n - 1, val, want, 'two or more' if n > 1 else 'one')))
+            break
+        if pos != ('pos', n):
+            bad.append(('cursor', "after a %d-digit number the cursor is left at offset %s instead of %d" % (n, pos[1], n)))
+            break
+    return bad
+
+
+def rule_digits(ctx, section_funcs):
+    r = Rule('C17-DIGITS', 'the number parser of the format scanner, executed symbolically on digit runs of length 0..3 (every condition evaluated on all 256 byte values per character class, '
+             'arithmetic kept as polynomials), accepts exactly runs of 0-9, returns their decimal value and leaves the cursor behind them', floor=1)
+    n = 0
+    for d in section_funcs:
+        names, types = d.param_names(), d.param_types()
+        cur = [nm for nm, t in zip(names, types) if re.fullmatch(r'const\s+char\s*\*\s*\*', ' '.join(t.split()))]
+        if len(cur) != 1 or len(names) != 1:
+            continue
+        if re.search(r'\b(?!while\b|if\b|for\b|return\b|sizeof\b|likely\b|unlikely\b)[A-Za-z_]\w*\s*\(', d.body):
+            continue                # not a leaf: wrappers / error reporting
+        n += 1
+        r.inst('%s:decimal' % d.name, sample='%s(const char **%s)' % (d.name, cur[0]))
+        try:
+            bad = digit_findings(d.body, cur[0])
+        except (SymGiveUp, cexpr.ParseError) as e:
+            raise AnalysisError('%s: symbolic execution gave up: %s' % (d.name, e))
+        for k, msg in bad:
+            r.violate('%s:%s' % (d.name, k), BUFFER_C, d.line, '%s: %s' % (d.name, msg))
+    if n == 0:
+        raise AnalysisError('no leaf number parser `int f(const char **)` in the format scanner')
+    pc1 = digit_findings("{ int c; const char* t = *ts; if (*t < '0' || *t > '9') { return -1; } c = *t++ - '0'; while (*t >= '0' && *t < '9') { c *= 10; c += *t++ - '0'; } *ts = t; return c; }", 'ts')
+    pc2 = digit_findings("{ int c; const char* t = *ts; if (*t < '0' || *t > '9') { return -1; } c = *t++ - '0'; while (*t >= '0' && *t <= '9') { c *= 8; c += *t++ - '0'; } *ts = t; return c; }", 'ts')
+    r.positive_control([k for k, _ in pc1] == ['digit-class'] and [k for k, _ in pc2] == ['value'], "digit 9 excluded by the loop test; radix 8")
+    return r
+
+
+# ---------------------------------------------------------------------------------------------------------------- C17-EQ
+CMP_OPS = ('==', '!=', '<', '>', '<=', '>=')
+
+
+def _skeleton(e, atoms):
+    """boolean skeleton of a condition: comparison atoms and other leaves are collected in `atoms` and referenced by index"""
+    e = P._strip(e)
+    if e[0] == 'bin' and e[1] in ('&&', '||'):
+        return (e[1], _skeleton(e[2], atoms), _skeleton(e[3], atoms))
+    if e[0] == 'un' and e[1] == '!':
+        return ('!', _skeleton(e[2], atoms))
+    if e[0] == 'bin' and e[1] in CMP_OPS:
+        atoms.append(('cmp', e[1], P.show(P._strip(e[2])), P.show(P._strip(e[3]))))
+    else:
+        atoms.append(('leaf', P.show(e)))
+    return ('atom', len(atoms) - 1)
+
+
+def _sk_eval(sk, vals):
+    if sk[0] == 'atom':
+        return vals[sk[1]]
+    if sk[0] == '!':
+        return not _sk_eval(sk[1], vals)
+    a = _sk_eval(sk[1], vals)
+    if sk[0] == '&&':
+        return a and _sk_eval(sk[2], vals)
+    return a or _sk_eval(sk[2], vals)
+
+
+def asymmetric_pairs(cond_text, is_quantity):
+    """pairs (x, y) compared in the condition, with x or y a descriptor quantity, for which the condition can tell x < y from x > y -> [(x, y)]"""
+    try:
+        e = P._parse(cond_text)
+    except cexpr.ParseError:
+        return None
+    atoms = []
+    sk = _skeleton(e, atoms)
+    pairs = {}
+    for i, a in enumerate(atoms):
+        if a[0] == 'cmp' and (is_quantity(a[2]) or is_quantity(a[3])) and not re.fullmatch(r'-?\d+|NULL', a[2]) and not re.fullmatch(r'-?\d+|NULL', a[3]):
+            pairs.setdefault(frozenset((a[2], a[3])), []).append(i)
+    out = []
+    import itertools
+    for pair, idxs in pairs.items():
+        free = [i for i in range(len(atoms)) if i not in idxs]
+        if len(free) > 10:
+            return None
+        x = atoms[idxs[0]][2]
+        asym = False
+        for bits in itertools.product((False, True), repeat=len(free)):
+            res = {}
+            for order in (-1, 1):           # x < y , x > y
+                vals = [None] * len(atoms)
+                for i, b in zip(free, bits):
+                    vals[i] = b
+                for i in idxs:
+                    _k, op, l, r_ = atoms[i]
+                    o = order if l == x else -order
+                    vals[i] = {'==': False, '!=': True, '<': o < 0, '>': o > 0, '<=': o < 0, '>=': o > 0}[op]
+                res[order] = _sk_eval(sk, vals)
+            if res[-1] != res[1]:
+                asym = True
+                break
+        if asym:
+            out.append(tuple(sorted(pair)))
+    return out
+
+
+def rule_eq(ctx, funcs_by_name):
+    r = Rule('C17-EQ', 'compatibility is equality: no condition of the format checker, the dtype comparison or the acquisition entry points can tell `quantity of the declared type < '
+             'quantity of the buffer` from `>` (sizes, extents, dimension counts are compared with == / != or an expression symmetric in the two)', floor=11)
+    proto = ctx.cat.section('Buffer.c', 'BufferFormatStructs', 'proto')
+    members = [m for m, t in struct_members(proto.text or proto.raw, '__Pyx_TypeInfo') if '*' not in t and not t.startswith('char') and not t.startswith('const char')]
+    pat = re.compile(r'->(?:%s)(?:\[[^\]]*\])?$' % '|'.join(map(re.escape, members)))
+
+    def is_quantity(text):
+        return bool(pat.search(text.replace(' ', '')))
+    n = 0
+    for d in funcs_by_name:
+        stmts = P.parse_body(re.sub(r'\$(\w+)', r'\1', d.body))
+        k = 0
+        for s in P.walk(stmts):
+            if s.kind not in ('if', 'while', 'do'):
+                continue
+            if not pat.search(re.sub(r'\s+', '', s.text).replace(')', '').replace('(', '')) and not re.search(r'->\s*(?:%s)\b' % '|'.join(map(re.escape, members)), s.text):
+                continue
+            pairs = asymmetric_pairs(s.text, is_quantity)
+            if pairs is None:
+                r.info('%s: condition `%s` not analysed' % (d.name, s.text[:60]))
+                continue
+            k += 1
+            n += 1
+            r.inst('%s:cond#%d' % (d.name, k), sample='%s: %s' % (d.name, s.text[:70]))
+            for x, y in pairs:
+                r.violate('%s:%s<>%s' % (d.name, x, y), 'Cython/Utility/' + d.file, d.line,
+                          "%s: the condition `%s` distinguishes `%s` being smaller than `%s` from it being larger: a buffer whose extent / size / dimension count differs from the declared type "
+                          "in one direction is accepted (e.g. a sub-array '(5)i' for a field declared int[3])" % (d.name, s.text[:120], x, y))
+    pc = asymmetric_pairs('i < ndim && (size_t) number < f->type->arraysize[i]', is_quantity if members else (lambda t: 'arraysize' in t))
+    pc2 = asymmetric_pairs('a->ndim > b->ndim || a->ndim < b->ndim || !(a->size == b->size)', lambda t: bool(re.search(r'->(ndim|size)$', t)))
+    r.positive_control(pc == [('f->type->arraysize[i]', 'number')] and pc2 == [], 'extent compared with <; a symmetric spelling of != stays silent')
+    return r
+
+
+# ---------------------------------------------------------------------------------------------------------------- C17-ALIGN
+def align_sites(d):
+    """statement runs `m = T % A; if (m > 0) T += A - m;` / `if (A && T % A) { T += A - (T % A); }` -> [(key, [stmts], T, A)]"""
+    out = []
+    stmts = P.parse_body(d.body)
+
+    def lists(lst):
+        yield lst
+        for s in lst:
+            if s.kind == 'switch':
+                for a in P.switch_arms(s):
+                    yield from lists(a.body)
+                continue
+            for sub in (s.body, s.orelse):
+                if sub is not None:
+                    yield from lists(P.as_list(sub))
+
+    guarded = set()
+    for lst in lists(stmts):
+        for s in lst:
+            if s.kind == 'if':
+                guarded.update(id(x) for x in P.as_list(s.body))
+    for lst in lists(stmts):
+        for i, s in enumerate(lst):
+            if s.kind == 'simple':
+                if id(s) in guarded:
+                    continue
+                m = re.match(r'([A-Za-z_]\w*(?:->\w+)*)\s*\+=\s*(.+)$', s.text)
+                mm = m and re.search(r'%s\s*%%\s*([A-Za-z_]\w*(?:->\w+)*)' % re.escape(m.group(1)), m.group(2))
+                if mm:
+                    out.append(([s], m.group(1), mm.group(1)))
+                continue
+            if s.kind != 'if' or s.orelse is not None:
+                continue
+            body = P.as_list(s.body)
+            if not body or any(x.kind != 'simple' for x in body):
+                continue
+            inner = ' '.join(x.text for x in body)
+            m = re.search(r'([A-Za-z_]\w*(?:->\w+)*)\s*\+=', inner)
+            if not m:
+                continue
+            T = m.group(1)
+            start = i
+            mm = re.search(r'%s\s*%%\s*([A-Za-z_]\w*(?:->\w+)*)' % re.escape(T), s.text + ' ' + inner)
+            if not mm and i > 0 and lst[i - 1].kind == 'simple':
+                mm = re.search(r'%s\s*%%\s*([A-Za-z_]\w*(?:->\w+)*)' % re.escape(T), lst[i - 1].text)
+                start = i - 1
+            if mm:
+                out.append((lst[start:i + 1], T, mm.group(1)))
+    return out
+
+
+def align_problems(run, T, A):
+    bad = []
+    for a in (1, 2, 3, 4, 8, 16):
+        for off in range(0, 2 * a + 1):
+            st = P.PState()
+            st.env[re.sub(r'\s+', '', T)] = ('const', off)
+            st.env[re.sub(r'\s+', '', A)] = ('const', a)
+            try:
+                res = P.Explorer(run).stmts(run, st)
+            except P.Unmodelled as e:
+                raise AnalysisError('alignment block: %s' % e)
+            for s1, ex in res:
+                if [t for t, _, _ in s1.facts]:
+                    raise AnalysisError('alignment block depends on `%s`' % s1.facts[0][0])
+                v = s1.env.get(re.sub(r'\s+', '', T))
+                if v is None or v[0] != 'const':
+                    raise AnalysisError('alignment block: value of %s not constant after the block' % T)
+                want = (off + a - 1) // a * a
+                if v[1] != want:
+                    bad.append("with alignment %d an offset of %d becomes %d (the next multiple is %d)" % (a, off, v[1], want))
+                    return bad
+    return bad
+
+
+def rule_align(ctx, section_funcs):
+    r = Rule('C17-ALIGN', 'every round-up-to-alignment block of the format checker (offset % alignment -> offset += ...) yields the least multiple of the alignment that is >= the offset, '
+             'for every residue class (alignments 1,2,3,4,8,16)', floor=2)
+    for d in section_funcs:
+        for k, (run, T, A) in enumerate(align_sites(d)):
+            key = '%s:align(%s,%s)' % (d.name, re.sub(r'^\w+->', '', T), re.sub(r'^\w+->', '', A))
+            r.inst(key, sample='%s rounds %s up to a multiple of %s' % (d.name, T, A))
+            for msg in align_problems(run, T, A):
+                r.violate(key, BUFFER_C, d.line, "%s: the block that aligns %s to %s is not a round-up: %s; native-mode struct formats with padding ('T{b:a:i:b:}') are laid out differently "
+                          "from the C struct and are refused or mis-read" % (d.name, T, A, msg))
+    run = P.parse_body("{ m = off % al; if (m > 0) off += m; }")
+    r.positive_control(bool(align_problems(run, 'off', 'al')), 'offset += remainder instead of alignment - remainder')
+    return r
+
+
+# ---------------------------------------------------------------------------------------------------------------- C17-ACCESS
+class PyGiveUp(Exception):
+    pass
+
+
+def _py_test(t, env):
+    """truth of a test built from ==, !=, in, not in, and/or/not over names bound in env and string / tuple constants"""
+    if isinstance(t, _ast.BoolOp):
+        vals = [_py_test(v, env) for v in t.values]
+        return all(vals) if isinstance(t.op, _ast.And) else any(vals)
+    if isinstance(t, _ast.UnaryOp) and isinstance(t.op, _ast.Not):
+        return not _py_test(t.operand, env)
+    if isinstance(t, _ast.Compare) and len(t.ops) == 1:
+        a, b = _py_value(t.left, env), _py_value(t.comparators[0], env)
+        op = t.ops[0]
+        if isinstance(op, _ast.Eq):
+            return a == b
+        if isinstance(op, _ast.NotEq):
+            return a != b
+        if isinstance(op, _ast.In):
+            return a in b
+        if isinstance(op, _ast.NotIn):
+            return a not in b
+    raise PyGiveUp('test %s' % _ast.unparse(t))
+
+
+def _py_value(n, env):
+    if isinstance(n, _ast.Constant):
+        return n.value
+    if isinstance(n, _ast.Name) and n.id in env:
+        return env[n.id]
+    if isinstance(n, (_ast.Tuple, _ast.List)):
+        return tuple(_py_value(e, env) for e in n.elts)
+    raise PyGiveUp('value %s' % _ast.unparse(n))
+
+
+def _py_select(stmts, env):
+    """follow an if/elif/else chain (asserts are checked, other statements collected) -> (list of statements executed, return value or None)"""
+    done = []
+    for s in stmts:
+        if isinstance(s, _ast.If):
+            br = s.body if _py_test(s.test, env) else s.orelse
+            sub, ret = _py_select(br, env)
+            done.extend(sub)
+            if ret is not None:
+                return done, ret
+        elif isinstance(s, _ast.Assert):
+            if not _py_test(s.test, env):
+                raise PyGiveUp('assertion fails for %s' % env)
+        elif isinstance(s, _ast.Return):
+            return done, _py_value(s.value, env)
+        elif isinstance(s, _ast.Expr) and isinstance(s.value, _ast.Constant):
+            continue
+        else:
+            done.append(s)
+    return done, None
+
+
+def access_kinds(mv_tree, helper_bodies):
+    """-> {access word: {packing word: 'plain' | 'deref' | 'runtime'}} : what the generated element lookup does with a dimension declared (access, packing)"""
+    from ..engine import tables as _t
+    fn = _t.find_function(mv_tree, 'get_memoryview_flag')
+    if fn is None:
+        raise AnalysisError('MemoryView.get_memoryview_flag vanished')
+    params = [a.arg for a in fn.args.args]
+    if len(params) != 2:
+        raise AnalysisError('get_memoryview_flag: two parameters expected')
+    words = {p: set() for p in params}
+    for c in _ast.walk(fn):
+        if isinstance(c, _ast.Compare) and isinstance(c.left, _ast.Name) and c.left.id in words:
+            for x in _ast.walk(c.comparators[0]):
+                if isinstance(x, _ast.Constant) and isinstance(x.value, str):
+                    words[c.left.id].add(x.value)
+        if isinstance(c, _ast.Compare) and isinstance(c.left, _ast.Tuple) and isinstance(c.comparators[0], _ast.Tuple):
+            for l, rgt in zip(c.left.elts, c.comparators[0].elts):
+                if isinstance(l, _ast.Name) and l.id in words and isinstance(rgt, _ast.Constant):
+                    words[l.id].add(rgt.value)
+    gen = None
+    for n in _ast.walk(mv_tree):
+        if isinstance(n, _ast.FunctionDef) and any(isinstance(c, _ast.Call) and isinstance(c.func, _ast.Name) and c.func.id == 'get_memoryview_flag' for c in _ast.walk(n)) \
+                and any(isinstance(c, _ast.Constant) and isinstance(c.value, str) and '(char **)' in c.value for c in _ast.walk(n)):
+            gen = n
+    if gen is None:
+        raise AnalysisError('the memoryview element-lookup generator (caller of get_memoryview_flag that emits pointer dereferences) was not found')
+    flagvar = None
+    for n in _ast.walk(gen):
+        if isinstance(n, _ast.Assign) and isinstance(n.value, _ast.Call) and isinstance(n.value.func, _ast.Name) and n.value.func.id == 'get_memoryview_flag' and isinstance(n.targets[0], _ast.Name):
+            flagvar = n.targets[0].id
+            loop_body = None
+    chain = None
+    for n in _ast.walk(gen):
+        if isinstance(n, _ast.For) and any(isinstance(x, _ast.Assign) and isinstance(x.value, _ast.Call) and getattr(x.value.func, 'id', None) == 'get_memoryview_flag' for x in n.body):
+            chain = [s for s in n.body if isinstance(s, _ast.If) and any(isinstance(x, _ast.Name) and x.id == flagvar for x in _ast.walk(s.test))]
+    if not flagvar or not chain:
+        raise AnalysisError('%s: the branch on the memoryview flag was not found' % gen.name)
+    out = {}
+    for a in sorted(words[params[0]]):
+        for p in sorted(words[params[1]]):
+            try:
+                _d, flag = _py_select(fn.body, {params[0]: a, params[1]: p})
+                done, _r = _py_select(chain, {flagvar: flag})
+            except PyGiveUp as e:
+                raise AnalysisError('memoryview lookup generation for (%s, %s): %s' % (a, p, e))
+            texts = [c.value for s in done for c in _ast.walk(s) if isinstance(c, _ast.Constant) and isinstance(c.value, str)]
+            kind = 'plain'
+            if any('(char **)' in t for t in texts):
+                kind = 'deref'
+            for t in texts:
+                for h, hb in helper_bodies.items():
+                    if h in t:
+                        if re.search(r'if\s*\(\s*\w*suboffset\w*\s*>=\s*0\s*\)', hb) and '(char **)' in hb:
+                            kind = 'runtime'
+                        elif '(char **)' in hb:
+                            kind = 'deref'
+            out.setdefault(a, {})[p] = kind
+    return out, gen
+
+
+def rule_access(ctx, func):
+    r = Rule('C17-ACCESS', 'for every access mode of a memoryview axis (direct / ptr / full) the macro the compiler passes to the validator admits exactly the buffers the generated '
+             'element lookup can index: plain data for a lookup that never dereferences, indirect (suboffset >= 0) for one that always does, both for one that decides at run time; run-time decided dereferences happen exactly for suboffset >= 0', floor=5)
+    from ..engine import tables as _t
+    tree = ctx.parse('Cython/Compiler/MemoryView.py')
+    d = _t.module_assign(tree, '_spec_to_const')
+    if not isinstance(d, _ast.Dict):
+        raise AnalysisError('MemoryView._spec_to_const is not a dict literal')
+    word2macro = {}
+    for k, v in zip(d.keys, d.values):
+        if isinstance(v, _ast.Name):
+            v = _t.module_assign(tree, v.id)
+        if isinstance(k, _ast.Constant) and isinstance(v, _ast.Constant):
+            word2macro[k.value] = v.value
+    macros = _macro_values(ctx, r'__Pyx_MEMVIEW_\w+')
+    rows = suboffset_table(func(ctx, '__pyx_check_suboffsets'), macros)
+    helpers = {dd.name: dd.body for v in ctx.cat.decls.values() for dd in v if dd.kind == 'func' and dd.body and dd.file == 'MemoryView_C.c' and dd.section.name == 'MemviewSliceIndex'}
+    kinds, gen = access_kinds(tree, helpers)
+    # validator semantics of a macro: the table is keyed by the macro suffix
+    admits = {}
+    for (acc, packing, sub), ok in rows.items():
+        a = admits.setdefault('__Pyx_MEMVIEW_' + acc, {'plain': False, 'indirect': False})
+        if ok:
+            a['indirect' if (sub != 'NULL' and sub >= 0) else 'plain'] = True
+    for word, by_packing in sorted(kinds.items()):
+        r.inst('access:%s' % word, sample='axis access %r: lookup %s, macro %s' % (word, '/'.join(sorted(set(by_packing.values()))), word2macro.get(word)))
+    for key, msg in access_problems(kinds, word2macro, admits):
+        r.violate(key, 'Cython/Compiler/MemoryView.py', gen.lineno if key.startswith('MemoryView.%s' % gen.name) else getattr(d, 'lineno', 0), msg)
+    # run-time decided dereference: `if (suboffset >= 0) p = *((char **) p) + suboffset` -- PEP 3118 says exactly the non-negative suboffsets are dereferenced
+    guards = []
+    for name, hb in sorted(helpers.items()):
+        for m in re.finditer(r'if\s*\(([^(){};]*)\)\s*\{?[^{};]*\*\s*\(\s*\(\s*char\s*\*\*\s*\)', hb):
+            guards.append(('MemoryView_C.c:%s' % name, m.group(1), MVC_C, 0))
+    btree = ctx.parse('Cython/Compiler/Buffer.py')
+    for n in _ast.walk(btree):
+        if isinstance(n, _ast.Constant) and isinstance(n.value, str):
+            for m in re.finditer(r'if\s*\(([^(){};]*)\)\s*\w+\s*=\s*\*\s*\(\s*\(\s*char\s*\*\*\s*\)', n.value):
+                guards.append(('Buffer.py:full-lookup', m.group(1), 'Cython/Compiler/Buffer.py', n.lineno))
+    for key, cond, rel, line in guards:
+        c = re.sub(r'%d', '', cond)
+        ids = set(re.findall(r'[A-Za-z_]\w*', c))
+        r.inst('%s:deref-guard' % key, sample='%s dereferences under `%s`' % (key, cond))
+        if len(ids) != 1:
+            r.info('%s: dereference guard `%s` not over a single variable: not decided' % (key, cond))
+            continue
+        v = next(iter(ids))
+        try:
+            got = [bool(cexpr.evaluate(cexpr.parse(c), {v: x})) for x in (-2, -1, 0, 1, 2)]
+        except (cexpr.ParseError, cexpr.EvalError):
+            r.info('%s: dereference guard `%s` not evaluable' % (key, cond))
+            continue
+        if got != [False, False, True, True, True]:
+            r.violate('%s:deref-guard' % key, rel, line, "%s dereferences the indirect dimension under `%s`, i.e. for suboffsets %s; PEP 3118: a dimension is indirect exactly when its suboffset is >= 0 "
+                      "(a suboffset of 0 is the common case): pointer tables are read as data or data as pointers" % (key, cond, [x for x, g in zip((-2, -1, 0, 1, 2), got) if g]))
+    if len(guards) < 2:
+        raise AnalysisError('run-time dereference guards (index helper, legacy full lookup) not found')
+    if len(kinds) < 3:
+        raise AnalysisError('fewer than three access modes found (%s)' % sorted(kinds))
+    pk = {'direct': {'contig': 'plain'}, 'ptr': {'contig': 'deref'}, 'full': {'contig': 'runtime'}}
+    pa = {'D': {'plain': True, 'indirect': False}, 'P': {'plain': False, 'indirect': True}, 'F': {'plain': True, 'indirect': True}}
+    r.positive_control([k for k, _ in access_problems(pk, {'direct': 'P', 'ptr': 'D', 'full': 'F'}, pa)] == ['MemoryView.access:direct', 'MemoryView.access:ptr']
+                       and not access_problems(pk, {'direct': 'D', 'ptr': 'P', 'full': 'F'}, pa), 'direct and ptr mapped to each other\'s macro')
+    return r
+
+
+def access_problems(kinds, word2macro, admits):
+    out = []
+    for word, by_packing in sorted(kinds.items()):
+        ks = set(by_packing.values())
+        macro = word2macro.get(word)
+        if macro not in admits:
+            out.append(('MemoryView._spec_to_const:%s' % word, "access mode %r maps to %r, which __pyx_check_suboffsets does not test for" % (word, macro)))
+            continue
+        if len(ks) != 1:
+            out.append(('MemoryView.lookup:%s' % word, 'the lookup generated for access mode %r differs with the packing (%s)' % (word, by_packing)))
+            continue
+        kind = next(iter(ks))
+        a = admits[macro]
+        want = {'plain': (True, False), 'deref': (False, True), 'runtime': (True, True)}[kind]
+        if (a['plain'], a['indirect']) != want:
+            out.append(('MemoryView.access:%s' % word,
+                        "an axis declared %r is validated with %s, under which __pyx_check_suboffsets admits %s; but the element lookup generated for it %s: %s" % (
+                            word, macro, (' and '.join(k for k in ('plain', 'indirect') if a[k]) + ' dimensions') if (a['plain'] or a['indirect']) else 'nothing',
+                            {'plain': 'never dereferences', 'deref': 'always dereferences a pointer', 'runtime': 'dereferences when suboffset >= 0'}[kind],
+                            'ordinary (numpy) arrays are refused for plain views, or pointer tables are read as element data')))
+    return out
+
+
+# ---------------------------------------------------------------------------------------------------------------- C17-REQ
+def pybuf_values():
+    """PyBUF_* request flags from the CPython header of the running interpreter (reference table)"""
+    import os
+    from ..engine import tables as _t
+    inc = _t.cpython_include()
+    text = None
+    for cand in ('pybuffer.h', 'cpython/object.h', 'object.h'):
+        p = os.path.join(inc, cand)
+        if os.path.exists(p) and 'PyBUF_FORMAT' in open(p).read():
+            text = open(p).read()
+            break
+    if text is None:
+        raise AnalysisError('PyBUF_* definitions not found in the CPython headers at %s' % inc)
+    raw = dict(re.findall(r'#\s*define\s+(PyBUF_\w+)\s+(.+)', text))
+    vals = {}
+
+    def ev(name, depth=0):
+        if name in vals:
+            return vals[name]
+        if depth > 6 or name not in raw:
+            raise AnalysisError('PyBUF flag %s not defined' % name)
+        expr = re.sub(r'/\*.*?\*/', '', raw[name]).strip()
+        e = cexpr.parse(expr)
+        env = {x[1]: ev(x[1], depth + 1) for x in cexpr.walk(e) if x[0] == 'id'}
+        vals[name] = cexpr.evaluate(e, env)
+        return vals[name]
+    for n in raw:
+        try:
+            ev(n)
+        except (cexpr.ParseError, cexpr.EvalError):
+            pass
+    return vals
+
+
+def _flag_bits(text, vals):
+    bits = 0
+    for f in re.findall(r'PyBUF_\w+', text):
+        if f not in vals:
+            raise AnalysisError('request flag %s is not a CPython PyBUF flag' % f)
+        bits |= vals[f]
+    return bits
+
+
+def legacy_requests(buf_tree):
+    """mode -> concatenated request text of Buffer.get_flags (if-chain or dict form)"""
+    from ..engine import tables as _t
+    fn = _t.find_function(buf_tree, 'get_flags')
+    if fn is None:
+        raise AnalysisError('Buffer.get_flags vanished')
+    base = ''
+    out = {}
+    for n in fn.body:
+        if isinstance(n, _ast.Assign) and isinstance(n.value, _ast.Constant) and isinstance(n.value.value, str) and 'PyBUF' in n.value.value:
+            base += ' ' + n.value.value
+    for n in _ast.walk(fn):
+        if isinstance(n, _ast.If) and isinstance(n.test, _ast.Compare) and isinstance(n.test.ops[0], _ast.Eq) and isinstance(n.test.comparators[0], _ast.Constant) \
+                and isinstance(n.test.comparators[0].value, str) and isinstance(n.test.left, _ast.Name):
+            txt = ' '.join(c.value for s in n.body for c in _ast.walk(s) if isinstance(c, _ast.Constant) and isinstance(c.value, str))
+            if 'PyBUF' in txt:
+                out[n.test.comparators[0].value] = base + ' ' + txt
+        if isinstance(n, _ast.Dict) and all(isinstance(k, _ast.Constant) for k in n.keys):
+            for k, v in zip(n.keys, n.values):
+                txt = ' '.join(c.value for c in _ast.walk(v) if isinstance(c, _ast.Constant) and isinstance(c.value, str))
+                if 'PyBUF' in txt:
+                    out[k.value] = base + ' ' + txt
+    return fn, out
+
+
+def rule_req(ctx):
+    r = Rule('C17-REQ', 'every buffer request made by an acquisition asks the exporter for what the acquisition then reads: PyBUF_FORMAT (the format is parsed), strides (copied per dimension), '
+             'suboffsets for indirect access; flag composition taken from the CPython headers', floor=11)
+    vals = pybuf_values()
+    F, S, I = vals['PyBUF_FORMAT'], vals['PyBUF_STRIDES'], vals['PyBUF_INDIRECT']
+    from ..engine import tables as _t
+    btree = ctx.parse('Cython/Compiler/Buffer.py')
+    fn, reqs = legacy_requests(btree)
+    if len(reqs) < 4:
+        raise AnalysisError('Buffer.get_flags: fewer than four modes found (%s)' % sorted(reqs))
+    # which modes read suboffsets (put_unpack_buffer_aux_into_scope / lookup)
+    sub_modes = set()
+    for n in _ast.walk(btree):
+        if isinstance(n, _ast.If) and isinstance(n.test, _ast.Compare) and isinstance(n.test.comparators[0], _ast.Constant) and isinstance(n.test.ops[0], _ast.Eq) \
+                and any(isinstance(c, _ast.Constant) and c.value == 'suboffsets' for s in n.body for c in _ast.walk(s)):
+            sub_modes.add(n.test.comparators[0].value)
+    for mode, txt in sorted(reqs.items()):
+        bits = _flag_bits(txt, vals)
+        for what, need, why in (('format', F, 'buf->format is parsed by __Pyx_BufFmt_CheckString, and is NULL unless PyBUF_FORMAT was requested'),
+                                ('strides', S, 'strides[] and shape[] are copied for every dimension'),
+                                ('suboffsets', I if mode in sub_modes else 0, 'suboffsets[] are copied for every dimension')):
+            if not need:
+                continue
+            r.inst('Buffer.get_flags:%s:%s' % (mode, what), sample='mode %r requests %s' % (mode, ' '.join(txt.split())))
+            if bits & need != need:
+                r.violate('Buffer.get_flags:%s:%s' % (mode, what), 'Cython/Compiler/Buffer.py', fn.lineno,
+                          "a buffer declared mode=%r is requested with `%s`, which lacks %s although %s: NULL pointer read / the format is never checked" % (mode, ' '.join(txt.split()), what, why))
+    mtree = ctx.parse('Cython/Compiler/MemoryView.py')
+    gfn = _t.find_function(mtree, 'get_buf_flags')
+    if gfn is None:
+        raise AnalysisError('MemoryView.get_buf_flags vanished')
+    k = 0
+    for n in _ast.walk(gfn):
+        if not isinstance(n, _ast.Return) or n.value is None:
+            continue
+        v = n.value
+        name = v.id if isinstance(v, _ast.Name) else None
+        if name:
+            v = _t.module_assign(mtree, name)
+        txt = ' '.join(c.value for c in _ast.walk(v) if isinstance(c, _ast.Constant) and isinstance(c.value, str)) if v is not None else ''
+        if 'PyBUF' not in txt:
+            raise AnalysisError('MemoryView.get_buf_flags returns something that is not a PyBUF request (%s)' % (name,))
+        bits = _flag_bits(txt, vals)
+        k += 1
+        r.inst('MemoryView.get_buf_flags:%s:format' % name, sample='%s = %s' % (name, txt))
+        if bits & F != F:
+            r.violate('MemoryView.get_buf_flags:%s:format' % name, 'Cython/Compiler/MemoryView.py', n.lineno,
+                      "memoryview acquisitions request `%s`, which lacks PyBUF_FORMAT: buf->format is NULL and __Pyx_BufFmt_CheckString dereferences it / no dtype check happens" % txt)
+    # indirect access needs PyBUF_INDIRECT: the return taken when an axis is 'full' / 'ptr'
+    for n in _ast.walk(gfn):
+        if isinstance(n, _ast.If) and any(isinstance(c, _ast.Constant) and c.value in ('ptr', 'full') for c in _ast.walk(n.test)):
+            for s in n.body:
+                if isinstance(s, _ast.Return):
+                    v = _t.module_assign(mtree, s.value.id) if isinstance(s.value, _ast.Name) else s.value
+                    txt = ' '.join(c.value for c in _ast.walk(v) if isinstance(c, _ast.Constant) and isinstance(c.value, str))
+                    r.inst('MemoryView.get_buf_flags:indirect', sample='indirect axes request %s' % txt)
+                    if _flag_bits(txt, vals) & I != I:
+                        r.violate('MemoryView.get_buf_flags:indirect', 'Cython/Compiler/MemoryView.py', s.lineno,
+                                  "a view with an indirect ('ptr' / 'full') axis requests `%s`, which lacks PyBUF_INDIRECT: exporters with suboffsets refuse or hand out no suboffsets" % txt)
+    if k < 3:
+        raise AnalysisError('MemoryView.get_buf_flags: fewer than three request constants found')
+    r.positive_control(_flag_bits('PyBUF_STRIDED_RO', vals) & F == 0 and _flag_bits('PyBUF_RECORDS_RO', vals) & F == F, 'PyBUF_STRIDED_RO lacks the format, PyBUF_RECORDS_RO has it')
+    return r
+
+
+# ---------------------------------------------------------------------------------------------------------------- C17-POOL
+def pool_findings(check_body):
+    """The scanner pools a format item with the pending chunk instead of opening a new one.  Whatever the new-chunk code records about an item (every context field it assigns from
+    the item, except the count) must be compared by the pooling condition with the same source, or two different items are processed as one chunk."""
+    stmts = P.parse_body(check_body)
+    sw = None
+    for s in P.walk(stmts):
+        if s.kind == 'switch' and re.fullmatch(r'\*\s*(\w+)', s.text):
+            sw = s
+            break
+    if sw is None:
+        raise AnalysisError('no switch over the format cursor')
+    arms = P.switch_arms(sw)
+    out = []
+    n = 0
+    for a in arms:
+        for s in a.body:
+            if s.kind != 'if' or s.orelse is not None or not P.terminates(P.as_list(s.body)):
+                continue
+            # the new-chunk code: the statements executed when the condition is false, up to the end of the fall-through chain;
+            # it starts by flushing the pending chunk (a call that is handed the context) and then records the item
+            rest = [x for link in P.chain(arms, a.index) for x in link.body]
+            rest = rest[rest.index(s) + 1:]
+            ctxv, flushed = None, False
+            recorded = {}
+            for x in rest:
+                if x.kind == 'if' and re.search(r'\w+\s*\(\s*(\w+)\s*\)', x.text) and not flushed:
+                    ctxv = re.search(r'\w+\s*\(\s*(\w+)\s*\)', x.text).group(1)
+                    flushed = True
+                    continue
+                if x.kind != 'simple' or not flushed:
+                    continue
+                mm = re.match(r'%s\s*->\s*(\w+)\s*=\s*(.+)$' % re.escape(ctxv), x.text)
+                if mm and not re.fullmatch(r'\d+', mm.group(2).strip()):
+                    recorded[mm.group(1)] = re.sub(r'\s+', '', mm.group(2))
+            if not recorded or not any(re.search(r'%s\s*->\s*%s\b' % (re.escape(ctxv), re.escape(f)), s.text) for f in recorded):
+                continue
+            # the count is accumulated, not compared: the field the pooling branch adds to
+            inner = ' '.join(x.text for x in P.walk(P.as_list(s.body)) if x.kind == 'simple')
+            for f in list(recorded):
+                if re.search(r'%s\s*->\s*%s\s*\+=' % (re.escape(ctxv), re.escape(f)), inner):
+                    del recorded[f]
+            cond = re.sub(r'\s+', '', s.text)
+            for f, src in sorted(recorded.items()):
+                n += 1
+                a1 = '%s->%s==%s' % (ctxv, f, src)
+                a2 = '%s==%s->%s' % (src, ctxv, f)
+                if a1 not in cond and a2 not in cond:
+                    out.append((f, "the scanner pools a format item with the pending chunk under `%s`, but a new chunk records %s->%s = %s and the condition does not require them to be equal: "
+                                   "items that differ in %s (e.g. 'd' and 'Zd', or 'i' before and after a '=' prefix) are counted as one chunk and compared with the wrong size / group" % (s.text, ctxv, f, src, f)))
+    return n, out
+
+
+def rule_pool(ctx, func):
+    r = Rule('C17-POOL', 'the pooling condition of the format scanner compares every attribute a new chunk records about an item (type character, complex flag, pack mode)', floor=2)
+    cs = func(ctx, '__Pyx_BufFmt_CheckString')
+    n, bad = pool_findings(cs.body)
+    if n == 0:
+        raise AnalysisError('__Pyx_BufFmt_CheckString: pooling condition / new-chunk assignments not found')
+    for i in range(n):
+        r.inst('__Pyx_BufFmt_CheckString:pool#%d' % i, sample='pooling condition covers a recorded attribute')
+    for f, msg in bad:
+        r.violate('__Pyx_BufFmt_CheckString:pool:%s' % f, BUFFER_C, cs.line, msg)
+    pn, pbad = pool_findings("{ while (1) { switch (*p) { case 'a': case 'b': if (c->t == *p && !c->arr) { c->n += c->m; ++p; break; } "
+                             "CYTHON_FALLTHROUGH; case 's': if (flush(c) == -1) return 0; c->n = c->m; c->mode = c->newmode; c->t = *p; ++p; break; default: return 0; } } }")
+    r.positive_control(pn == 2 and [f for f, _ in pbad] == ['mode'], 'pooling without comparing the pack mode')
     return r
